@@ -1,4 +1,5 @@
 import DdsProofs.EnvSound
+import DdsProofs.EvalLemmas
 /-!
 # Memoised evaluation returns what plain execution returns (`memo_correct`)
 
@@ -14,12 +15,37 @@ open List
 
 /-! ## Sound stores -/
 
+/-- every blob is the plain value of a chained, analysed call with that signature, run from a plain state that holds, at
+every path the call loads, the blob of the signature the path resolved to -/
+def Right (U : Universe) (m : Nat) (x : Nat) (Ω : Blobs) (k : Sg) (v : RVal) : Prop :=
+  ∃ (W : World) (fn : Fn) (ctx : ArgCtx) (env : Env) (fuel : Nat) (refs : Refs) (stack : List String)
+    (fis : FIS) (r : Refs) (p : PSt),
+    U.world W ∧ W.extVersion = x ∧ U.fns fn ∧ Chain U m Ω W fn ctx env ∧
+    analyse m W fuel refs stack fn ctx = .ok (fis, r) ∧ fis.retSig = k ∧ FIS.loadsOK Ω p.kept fis ∧
+    (plainFn W fuel p fn env).1 = .ok v
+
 def Sound (U : Universe) (m : Nat) (x : Nat) (S : PStore) : Prop :=
-  ∀ k v, sgGet S.blobs k = some v →
-    ∃ (W : World) (fn : Fn) (ctx : ArgCtx) (env : Env) (fuel : Nat) (refs : Refs) (stack : List String)
-      (fis : FIS) (r : Refs) (p : PSt),
-      U.world W ∧ W.extVersion = x ∧ U.fns fn ∧ Chain U m W fn ctx env ∧
-      analyse m W fuel refs stack fn ctx = .ok (fis, r) ∧ fis.retSig = k ∧ (plainFn W fuel p fn env).1 = .ok v
+  ∀ k v, sgGet S.blobs k = some v → Right U m x S.blobs k v
+
+theorem Right.mono {U : Universe} {m x : Nat} {Ω Ω' : Blobs} {k : Sg} {v : RVal} (h : Right U m x Ω k v)
+    (he : ∀ k v, sgGet Ω k = some v → sgGet Ω' k = some v) : Right U m x Ω' k v := by
+  obtain ⟨W, fn, ctx, env, fuel, refs, stack, fis, r, p, h1, h2, h3, h4, h5, h6, h7, h8⟩ := h
+  exact ⟨W, fn, ctx, env, fuel, refs, stack, fis, r, p, h1, h2, h3, h4.mono he, h5, h6, loadsOK_mono he fis h7, h8⟩
+
+/-- a signature has one right value -/
+theorem Right.unique {U : Universe} {m x : Nat} {Ω : Blobs} {k : Sg} {v w : RVal} (h : Right U m x Ω k v)
+    (h' : Right U m x Ω k w) : v = w := by
+  obtain ⟨W, fn, ctx, env, fuel, refs, stack, fis, r, p, hW, hx, hU, hc, ha, hs, hl, hv⟩ := h
+  obtain ⟨W0, fn0, ctx0, env0, fuel0, refs0, stack0, fis0, r0, p0, hW0, hx0, hU0, hc0, ha0, hs0, hl0, hv0⟩ := h'
+  have := sig_sound_full U m hc hc0 hW hW0 (hx.trans hx0.symm) hU hU0 ha ha0 (hs.trans hs0.symm) p p0 hl hl0
+  rw [hv, hv0] at this
+  simpa using this
+
+/-- the second store has every blob of the first, with the same value -/
+def Extends (S S' : PStore) : Prop := ∀ k v, sgGet S.blobs k = some v → sgGet S'.blobs k = some v
+
+theorem Extends.refl (S : PStore) : Extends S S := fun _ _ h => h
+theorem Extends.trans {A B C : PStore} (h1 : Extends A B) (h2 : Extends B C) : Extends A C := fun k v h => h2 k v (h1 k v h)
 
 theorem sgGet_filter_ne {α} (l : List (Sg × α)) (k k' : Sg) (h : k' ≠ k) :
     sgGet (l.filter (fun kv => kv.1 ≠ k)) k' = sgGet l k' := by
@@ -53,29 +79,57 @@ theorem sgGet_storeBlob (S : PStore) (k k' : Sg) (v v' : RVal) (h : sgGet (S.sto
       rw [this, sgGet_filter_ne _ _ _ hk] at h
       exact Or.inr h
 
-/-- storing the plain value of a chained, analysed call under its signature keeps the store sound -/
+/-- storing under a key that has no blob yet keeps every blob -/
+theorem extends_storeBlob (S : PStore) (k : Sg) (v : RVal) (hnone : sgGet S.blobs k = none) : Extends S (S.storeBlob k v) := by
+  intro k' v' h
+  unfold PStore.storeBlob
+  by_cases hn : S.noop = true
+  · simp only [hn, if_true]; exact h
+  · simp only [hn, Bool.false_eq_true, if_false]
+    by_cases hk : k' = k
+    · subst hk; rw [hnone] at h; cases h
+    · have : sgGet ((k, v) :: S.blobs.filter (fun kv => kv.1 ≠ k)) k' = sgGet (S.blobs.filter (fun kv => kv.1 ≠ k)) k' := by
+        simp [sgGet, Ne.symm hk]
+      rw [this, sgGet_filter_ne _ _ _ hk]; exact h
+
+/-- a sound store whose blobs are all in a bigger store: the witnesses hold with respect to the bigger store too -/
+theorem Sound.witness_mono {U : Universe} {m x : Nat} {S S' : PStore} (hS : Sound U m x S) (he : Extends S S')
+    {k : Sg} {v : RVal} (h : sgGet S.blobs k = some v) :
+    ∃ (W : World) (fn : Fn) (ctx : ArgCtx) (env : Env) (fuel : Nat) (refs : Refs) (stack : List String)
+      (fis : FIS) (r : Refs) (p : PSt),
+      U.world W ∧ W.extVersion = x ∧ U.fns fn ∧ Chain U m S'.blobs W fn ctx env ∧
+      analyse m W fuel refs stack fn ctx = .ok (fis, r) ∧ fis.retSig = k ∧ FIS.loadsOK S'.blobs p.kept fis ∧
+      (plainFn W fuel p fn env).1 = .ok v := by
+  obtain ⟨W, fn, ctx, env, fuel, refs, stack, fis, r, p, h1, h2, h3, h4, h5, h6, h7, h8⟩ := hS k v h
+  exact ⟨W, fn, ctx, env, fuel, refs, stack, fis, r, p, h1, h2, h3, h4.mono he, h5, h6, loadsOK_mono he fis h7, h8⟩
+
+/-- storing the plain value of a chained, analysed call under its (so far absent) signature keeps the store sound -/
 theorem Sound.storeBlob {U : Universe} {m x : Nat} {S : PStore} (hS : Sound U m x S)
     {W : World} {fn : Fn} {ctx : ArgCtx} {env : Env} {fuel : Nat} {refs : Refs} {stack : List String}
     {fis : FIS} {r : Refs} {p : PSt} {v : RVal}
-    (hW : U.world W) (hx : W.extVersion = x) (hU : U.fns fn) (hc : Chain U m W fn ctx env)
-    (ha : analyse m W fuel refs stack fn ctx = .ok (fis, r)) (hv : (plainFn W fuel p fn env).1 = .ok v) :
+    (hW : U.world W) (hx : W.extVersion = x) (hU : U.fns fn) (hc : Chain U m S.blobs W fn ctx env)
+    (ha : analyse m W fuel refs stack fn ctx = .ok (fis, r)) (hl : FIS.loadsOK S.blobs p.kept fis)
+    (hv : (plainFn W fuel p fn env).1 = .ok v) (hnone : sgGet S.blobs fis.retSig = none) :
     Sound U m x (S.storeBlob fis.retSig v) := by
+  have he := extends_storeBlob S fis.retSig v hnone
   intro k' v' h
   rcases sgGet_storeBlob S _ _ _ _ h with ⟨rfl, rfl⟩ | h'
-  · exact ⟨W, fn, ctx, env, fuel, refs, stack, fis, r, p, hW, hx, hU, hc, ha, rfl, hv⟩
-  · exact hS k' v' h'
+  · exact ⟨W, fn, ctx, env, fuel, refs, stack, fis, r, p, hW, hx, hU, hc.mono he, ha, rfl, loadsOK_mono he fis hl, hv⟩
+  · exact hS.witness_mono he h'
 
 /-- **a served blob is the right value**: in a sound store, the blob under the signature of the current call is the
-plain value of the current call in the current version of the code -/
+plain value of the current call in the current version of the code, from any plain state that holds the blobs of the paths
+the call loads -/
 theorem served_right {U : Universe} {m x : Nat} {S : PStore} (hS : Sound U m x S)
     {W : World} {fn : Fn} {ctx : ArgCtx} {env : Env} {fuel : Nat} {refs : Refs} {stack : List String}
     {fis : FIS} {r : Refs} {v : RVal}
-    (hW : U.world W) (hx : W.extVersion = x) (hU : U.fns fn) (hc : Chain U m W fn ctx env)
-    (ha : analyse m W fuel refs stack fn ctx = .ok (fis, r)) (hb : sgGet S.blobs fis.retSig = some v) (p : PSt) :
+    (hW : U.world W) (hx : W.extVersion = x) (hU : U.fns fn) (hc : Chain U m S.blobs W fn ctx env)
+    (ha : analyse m W fuel refs stack fn ctx = .ok (fis, r)) (hb : sgGet S.blobs fis.retSig = some v) (p : PSt)
+    (hl : FIS.loadsOK S.blobs p.kept fis) :
     (plainFn W fuel p fn env).1 = .ok v := by
-  obtain ⟨W0, fn0, ctx0, env0, fuel0, refs0, stack0, fis0, r0, p0, hW0, hx0, hU0, hc0, ha0, hs0, hv0⟩ := hS _ _ hb
+  obtain ⟨W0, fn0, ctx0, env0, fuel0, refs0, stack0, fis0, r0, p0, hW0, hx0, hU0, hc0, ha0, hs0, hl0, hv0⟩ := hS _ _ hb
   rw [← hv0]
-  exact sig_sound_full U m hc hc0 hW hW0 (hx.trans hx0.symm) hU hU0 ha ha0 hs0.symm p p0
+  exact sig_sound_full U m hc hc0 hW hW0 (hx.trans hx0.symm) hU hU0 ha ha0 hs0.symm p p0 hl hl0
 
 /-! ## The path map fixed by the analysis covers every kept call of the tree -/
 
@@ -445,15 +499,11 @@ theorem plainItems_snoc (W : World) (rec : PlainRec) (env : Env) :
         simp only at h1 ⊢
         exact plainItems_snoc W rec env pre st' q q' _ results it v h1 h2
 
-/-! ## Simulation: running under dds against a sound store = plain execution -/
+/-! ## Frames: what the analysis and plain execution leave alone
 
-/-- `SimFn fuel`: running the body of an analysed, chained call under dds (with the path map of the evaluation and a
-sound store) gives the value of plain execution and leaves a sound store -/
-def SimFn (U : Universe) (m x : Nat) (W : World) (paths : List (String × Sg)) (fuel : Nat) : Prop :=
-  ∀ (fn : Fn) (ctx : ArgCtx) (env : Env) (refs : Refs) (stack : List String) (fis : FIS) (r : Refs) (st : XSt) (p : PSt),
-    U.fns fn → Chain U m W fn ctx env → analyse m W fuel refs stack fn ctx = .ok (fis, r) →
-    FIS.pathsOKL paths fis.subs → Sound U m x st.store →
-    (runFn W paths fuel st fn env).1 = (plainFn W fuel p fn env).1 ∧ Sound U m x (runFn W paths fuel st fn env).2.store
+`paths` is the path map of the evaluation. A path that is not in the map is *external*: no call of the evaluation is kept
+there. The analysis never changes what an external path resolves to, and plain execution never changes what the plain state
+holds at an external path. -/
 
 theorem pathsOK_iff (paths : List (String × Sg)) (f : FIS) :
     FIS.pathsOK paths f ↔ (∀ q, f.storePath = some q → aget paths q = some f.retSig) ∧ FIS.pathsOKL paths f.subs := by
@@ -471,63 +521,501 @@ theorem analyse_storePath {m : Nat} {W : World} {fuel : Nat} {refs : Refs} {stac
     obtain ⟨_, _, _, _, _, _, a⟩ := analyse_inv h
     rw [a.hfis]; rfl
 
+theorem mem_final_inters {m : Nat} {W : World} {rec : Analyse} {fn : Fn} {isig : Sg} {stack : List String}
+    {its : List Item} {t sfin : VisitSt} (hr : visitItems m W rec fn isig stack t its = .ok sfin) {f : FIS}
+    (hf : f ∈ t.inters) : f ∈ sfin.inters := by
+  obtain ⟨d, hd⟩ := visitItems_grows hr
+  rw [hd]; exact mem_append_left _ hf
+
+/-- an explicit `keep` is never applied to a data function (which is kept at its own path already) -/
+def World.keepsPlain (W : World) : Prop :=
+  ∀ f ∈ W.funs, ∀ it ∈ f.items, ∀ path g args kwargs rtA rtK l, it = Item.keep path g args kwargs rtA rtK l →
+    ∀ h, W.find g = some h → h.storePath = none
+
+def External (paths : List (String × Sg)) (p : String) : Prop := aget paths p = none
+
+/-- `AFrame fuel`: the analysis of a call leaves every external path resolved as it was -/
+def AFrame (m : Nat) (W : World) (paths : List (String × Sg)) (fuel : Nat) : Prop :=
+  ∀ (refs : Refs) (stack : List String) (fn : Fn) (ctx : ArgCtx) (fis : FIS) (r : Refs), fn ∈ W.funs →
+    analyse m W fuel refs stack fn ctx = .ok (fis, r) → FIS.pathsOK paths fis →
+    ∀ p, External paths p → aget r p = aget refs p
+
+theorem visitItems_refs_frame {m : Nat} {W : World} {paths : List (String × Sg)} {fuel : Nat} (hIH : AFrame m W paths fuel)
+    (hkp : W.keepsPlain) (fn : Fn) (hfn : fn ∈ W.funs) (isig : Sg) (stack : List String) :
+    ∀ (its : List Item), (∀ it ∈ its, it ∈ fn.items) → ∀ (s sfin : VisitSt),
+      visitItems m W (analyse m W fuel) fn isig stack s its = .ok sfin → FIS.pathsOKL paths sfin.inters →
+      ∀ p, External paths p → aget sfin.refs p = aget s.refs p
+  | [], _, s, sfin, h, _, p, _ => by simp [visitItems] at h; subst h; rfl
+  | it :: its, hits, s, sfin, h, hok, p, hp => by
+    obtain ⟨t, hv, hr⟩ := visitItems_cons_inv h
+    rw [visitItems_refs_frame hIH hkp fn hfn isig stack its (fun x hx => hits x (mem_cons_of_mem _ hx)) t sfin hr hok p hp]
+    cases it with
+    | call f l =>
+      obtain ⟨g, c, named, fis, rf, hstep, e⟩ := plain_inv (by simpa [visitItem] using hv)
+      have hin : fis ∈ sfin.inters := mem_final_inters hr (by rw [e]; simp)
+      rw [e]; exact hIH _ _ _ _ _ _ (List.mem_of_find?_eq_some hstep.find) hstep.sub (pathsOKL_mem hok hin) p hp
+    | callArgs f a k ra rk l =>
+      obtain ⟨g, c, named, fis, rf, hstep, e⟩ := plain_inv (by simpa [visitItem] using hv)
+      have hin : fis ∈ sfin.inters := mem_final_inters hr (by rw [e]; simp)
+      rw [e]; exact hIH _ _ _ _ _ _ (List.mem_of_find?_eq_some hstep.find) hstep.sub (pathsOKL_mem hok hin) p hp
+    | ref f l =>
+      rcases ref_inv hv with ⟨_, e⟩ | ⟨_, g, c, named, fis, rf, hstep, e⟩
+      · rw [e]
+      · have hin : fis ∈ sfin.inters := mem_final_inters hr (by rw [e]; simp)
+        rw [e]; exact hIH _ _ _ _ _ _ (List.mem_of_find?_eq_some hstep.find) hstep.sub (pathsOKL_mem hok hin) p hp
+    | keep path f a k ra rk l =>
+      obtain ⟨g, c, named, fis, rf, hstep, _, e⟩ := keep_inv hv
+      have hin : fis.withPath path ∈ sfin.inters := mem_final_inters hr (by rw [e]; simp)
+      obtain ⟨k1, k2⟩ := (pathsOK_iff paths _).mp (pathsOKL_mem hok hin)
+      have hgp : g.storePath = none := hkp fn hfn _ (hits _ mem_cons_self) path f a k ra rk l rfl g hstep.find
+      have hfok : FIS.pathsOK paths fis := by
+        refine (pathsOK_iff paths fis).mpr ⟨fun q hq => ?_, k2⟩
+        rw [analyse_storePath hstep.sub, hgp] at hq; cases hq
+      have hne : p ≠ path := by
+        intro e'; subst e'
+        have := k1 p rfl
+        simp only [External] at hp
+        rw [hp] at this; cases this
+      rw [e]
+      simp only
+      rw [aget_aset_ne _ _ _ _ hne]
+      exact hIH _ _ _ _ _ _ (List.mem_of_find?_eq_some hstep.find) hstep.sub hfok p hp
+    | load path l => rw [load_inv hv]
+    | evalCall f l => simp [visitItem] at hv
+
+theorem aframe (m : Nat) (W : World) (paths : List (String × Sg)) (hkp : W.keepsPlain) : ∀ fuel, AFrame m W paths fuel
+  | 0 => by
+    intro refs stack fn ctx fis r _ h
+    exact absurd h analyse_zero
+  | k + 1 => by
+    intro refs stack fn ctx fis r hfn h hok p hp
+    obtain ⟨ev, io, sv, b, d, ret, a⟩ := analyse_inv h
+    obtain ⟨k1, k2⟩ := (pathsOK_iff paths fis).mp hok
+    have hsub : fis.subs = sv.inters := by rw [a.hfis]; rfl
+    rw [hsub] at k2
+    have hfr := visitItems_refs_frame (aframe m W paths hkp k) hkp fn hfn _ stack fn.items (fun _ h => h) _ sv a.hvisit k2 p hp
+    rw [a.hrefs]
+    cases hsp : fn.storePath with
+    | none => exact hfr
+    | some q =>
+      simp only
+      have hne : p ≠ q := by
+        intro e'; subst e'
+        have := k1 p (by rw [a.hfis]; exact hsp)
+        simp only [External] at hp
+        rw [hp] at this; cases this
+      rw [aget_aset_ne _ _ _ _ hne]; exact hfr
+
+/-- the plain state is unchanged at every external path -/
+def KFrame (paths : List (String × Sg)) (q q' : PSt) : Prop := ∀ p, External paths p → aget q'.kept p = aget q.kept p
+
+theorem KFrame.refl (paths : List (String × Sg)) (q : PSt) : KFrame paths q q := fun _ _ => rfl
+theorem KFrame.trans {paths : List (String × Sg)} {a b c : PSt} (h1 : KFrame paths a b) (h2 : KFrame paths b c) :
+    KFrame paths a c := fun p hp => (h2 p hp).trans (h1 p hp)
+
+/-- `PFrame fuel`: plain execution of an analysed call changes the plain state only at paths of the path map -/
+def PFrame (m : Nat) (W : World) (paths : List (String × Sg)) (fuel : Nat) : Prop :=
+  ∀ (refs : Refs) (stack : List String) (fn : Fn) (ctx : ArgCtx) (env : Env) (fis : FIS) (r : Refs) (q : PSt),
+    analyse m W fuel refs stack fn ctx = .ok (fis, r) → FIS.pathsOKL paths fis.subs →
+    KFrame paths q (plainFn W fuel q fn env).2
+
+/-- the functions already referenced by name in this body: analysed, their kept paths in the path map -/
+def SeenA (m : Nat) (W : World) (paths : List (String × Sg)) (fuel : Nat) (seen : List String) : Prop :=
+  ∀ f ∈ seen, ∃ (g : Fn) (ctx : ArgCtx) (fis : FIS) (rf refs0 : Refs) (stack0 : List String),
+    W.find f = some g ∧ analyse m W fuel refs0 stack0 g ctx = .ok (fis, rf) ∧ FIS.pathsOK paths fis
+
+theorem callRes_frame {m : Nat} {W : World} {paths : List (String × Sg)} {fuel : Nat} (hIH : PFrame m W paths fuel)
+    {f : String} {g : Fn} {ctx : ArgCtx} {refs : Refs} {stack : List String} {fis : FIS} {rf : Refs}
+    (hfind : W.find f = some g) (ha : analyse m W fuel refs stack g ctx = .ok (fis, rf))
+    (hsubs : FIS.pathsOKL paths fis.subs) (kp : Option String) (df : Bool)
+    (hkey : ∀ path, (kp = some path ∨ (kp = none ∧ df = true ∧ g.storePath = some path)) → aget paths path ≠ none)
+    (q : PSt) (pos : List RVal) (kw : List (String × RVal)) :
+    KFrame paths q (callRes W (plainFn W fuel) q f pos kw kp df).2 := by
+  simp only [callRes, hfind]
+  cases bindRun g.params pos kw 0 with
+  | none => exact KFrame.refl _ _
+  | some env' =>
+    simp only
+    have h1 := hIH refs stack g ctx env' fis rf q ha hsubs
+    cases hr : plainFn W fuel q g env' with
+    | mk v st' =>
+      rw [hr] at h1
+      cases v with
+      | error e => exact h1
+      | ok v =>
+        simp only
+        have hset : ∀ path, aget paths path ≠ none → KFrame paths q { st' with kept := aset st'.kept path v } := by
+          intro path hpath p hp
+          have hne : p ≠ path := by
+            intro e'; subst e'; exact hpath hp
+          simp only
+          rw [aget_aset_ne _ _ _ _ hne]; exact h1 p hp
+        cases kp with
+        | some path => exact hset path (hkey path (Or.inl rfl))
+        | none =>
+          cases df with
+          | false => exact h1
+          | true =>
+            simp only [if_true]
+            cases hsp : g.storePath with
+            | none => exact h1
+            | some path => exact hset path (hkey path (Or.inr ⟨rfl, rfl, hsp⟩))
+
+theorem plainItems_frame {m : Nat} {W : World} {paths : List (String × Sg)} {fuel : Nat} (hIH : PFrame m W paths fuel)
+    (fn : Fn) (isig : Sg) (stack : List String) (env : Env) :
+    ∀ (its : List Item) (s sfin : VisitSt) (results : List RVal) (q : PSt),
+      visitItems m W (analyse m W fuel) fn isig stack s its = .ok sfin → FIS.pathsOKL paths sfin.inters →
+      SeenA m W paths fuel s.seen →
+      KFrame paths q (plainItems W (plainFn W fuel) env q results its).2
+  | [], _, _, _, q, _, _, _ => KFrame.refl _ q
+  | it :: its, s, sfin, results, q, h, hok, hseen => by
+    obtain ⟨t, hv, hr⟩ := visitItems_cons_inv h
+    rw [plainItems_cons]
+    have claim : KFrame paths q (plainItemRes W (plainFn W fuel) env q results it).2 ∧ SeenA m W paths fuel t.seen := by
+      have node : ∀ (f : String) (g : Fn) (c : ArgCtx) (fis nd : FIS) (rf refs0 : Refs) (stack0 : List String) (kp : Option String)
+          (df : Bool) (pos : List RVal) (kw : List (String × RVal)),
+          W.find f = some g → analyse m W fuel refs0 stack0 g c = .ok (fis, rf) → nd ∈ sfin.inters →
+          nd.subs = fis.subs → nd.storePath = (match kp with | some p => some p | none => g.storePath) →
+          KFrame paths q (callRes W (plainFn W fuel) q f pos kw kp df).2 := by
+        intro f g c fis nd rf refs0 stack0 kp df pos kw hfind ha hin hsubs hsp
+        obtain ⟨k1, k2⟩ := (pathsOK_iff paths nd).mp (pathsOKL_mem hok hin)
+        rw [hsubs] at k2
+        refine callRes_frame hIH hfind ha k2 kp df (fun path hp => ?_) q pos kw
+        have : nd.storePath = some path := by
+          rw [hsp]
+          rcases hp with rfl | ⟨rfl, _, hp⟩
+          · rfl
+          · exact hp
+        rw [k1 path this]; simp
+      cases it with
+      | call f l =>
+        obtain ⟨g, c, named, fis, rf, hstep, e⟩ := plain_inv (by simpa [visitItem] using hv)
+        have hin : fis ∈ sfin.inters := mem_final_inters hr (by rw [e]; simp)
+        rw [plainItemRes_call']
+        exact ⟨node f g _ fis fis rf _ _ none true [] [] hstep.find hstep.sub hin rfl (analyse_storePath hstep.sub),
+          by rw [e]; exact hseen⟩
+      | callArgs f a k ra rk l =>
+        obtain ⟨g, c, named, fis, rf, hstep, e⟩ := plain_inv (by simpa [visitItem] using hv)
+        have hin : fis ∈ sfin.inters := mem_final_inters hr (by rw [e]; simp)
+        rw [plainItemRes_callArgs']
+        exact ⟨node f g _ fis fis rf _ _ none true _ _ hstep.find hstep.sub hin rfl (analyse_storePath hstep.sub),
+          by rw [e]; exact hseen⟩
+      | keep path f a k ra rk l =>
+        obtain ⟨g, c, named, fis, rf, hstep, _, e⟩ := keep_inv hv
+        have hin : fis.withPath path ∈ sfin.inters := mem_final_inters hr (by rw [e]; simp)
+        rw [plainItemRes_keep']
+        exact ⟨node f g _ fis (fis.withPath path) rf _ _ (some path) false _ _ hstep.find hstep.sub hin rfl rfl,
+          by rw [e]; exact hseen⟩
+      | ref f l =>
+        rw [plainItemRes_ref']
+        rcases ref_inv hv with ⟨hin, e⟩ | ⟨_, g, c, named, fis, rf, hstep, e⟩
+        · obtain ⟨g, c, fis, rf, refs0, stack0, hfind, ha, hfok⟩ := hseen f hin
+          obtain ⟨k1, k2⟩ := (pathsOK_iff paths fis).mp hfok
+          refine ⟨callRes_frame hIH hfind ha k2 none true (fun path hp => ?_) q [] [], by rw [e]; exact hseen⟩
+          rcases hp with hp | ⟨_, _, hp⟩
+          · cases hp
+          · rw [k1 path (by rw [analyse_storePath ha, hp])]; simp
+        · have hin : fis ∈ sfin.inters := mem_final_inters hr (by rw [e]; simp)
+          refine ⟨node f g _ fis fis rf _ _ none true [] [] hstep.find hstep.sub hin rfl (analyse_storePath hstep.sub), ?_⟩
+          rw [e]
+          intro f' hf'
+          rcases mem_cons.mp hf' with rfl | hf'
+          · exact ⟨g, ⟨named, c⟩, fis, rf, s.refs, stack ++ [f'], hstep.find, hstep.sub, pathsOKL_mem hok hin⟩
+          · exact hseen f' hf'
+      | load path l =>
+        refine ⟨?_, by rw [load_inv hv]; exact hseen⟩
+        simp only [plainItemRes]
+        cases aget q.kept path <;> exact KFrame.refl _ _
+      | evalCall f l => simp [visitItem] at hv
+    obtain ⟨c1, c2⟩ := claim
+    cases hR : plainItemRes W (plainFn W fuel) env q results it with
+    | mk rv q' =>
+      rw [hR] at c1
+      cases rv with
+      | error e => exact c1
+      | ok v => exact c1.trans (plainItems_frame hIH fn isig stack env its t sfin _ q' hr hok c2)
+
+theorem pframe (m : Nat) (W : World) (paths : List (String × Sg)) : ∀ fuel, PFrame m W paths fuel
+  | 0 => by
+    intro refs stack fn ctx env fis r q h
+    exact absurd h analyse_zero
+  | k + 1 => by
+    intro refs stack fn ctx env fis r q h hok
+    obtain ⟨ev, io, sv, b, d, ret, a⟩ := analyse_inv h
+    have hsub : fis.subs = sv.inters := by rw [a.hfis]; rfl
+    rw [hsub] at hok
+    rw [plainFn_succ_snd]
+    exact plainItems_frame (pframe m W paths k) fn _ stack env fn.items _ sv [] { q with log := q.log ++ [fn.name] }
+      a.hvisit hok (fun f hf => absurd hf (by simp))
+
+/-! ## Simulation: running under dds against a sound store = plain execution -/
+
+theorem loadsOK_iff (Ω : Blobs) (k : LoadEnv) (f : FIS) :
+    FIS.loadsOK Ω k f ↔ (∀ ps ∈ f.loads, ∃ v, sgGet Ω ps.2 = some v ∧ aget k ps.1 = some v) ∧ FIS.loadsOKL Ω k f.subs := by
+  obtain ⟨n, s, p, subs, l⟩ := f
+  simp only [FIS.loadsOK, FIS.loads, FIS.subs]
+
+theorem loadsOK_withPath (Ω : Blobs) (k : LoadEnv) (f : FIS) (p : String) :
+    FIS.loadsOK Ω k (f.withPath p) ↔ FIS.loadsOK Ω k f := by
+  rw [loadsOK_iff, loadsOK_iff]; rfl
+
+theorem loadsOKL_mem {Ω : Blobs} {k : LoadEnv} : ∀ {fs : List FIS} {f : FIS}, FIS.loadsOKL Ω k fs → f ∈ fs → FIS.loadsOK Ω k f
+  | g :: gs, f, h, hm => by
+    simp only [FIS.loadsOKL] at h
+    rcases mem_cons.mp hm with e | e
+    · subst e; exact h.1
+    · exact loadsOKL_mem h.2 e
+
+theorem loadsOKL_prefix {Ω : Blobs} {k : LoadEnv} : ∀ (a b : List FIS), FIS.loadsOKL Ω k (a ++ b) → FIS.loadsOKL Ω k a
+  | [], _, _ => trivial
+  | x :: a, b, h => by
+    simp only [cons_append, FIS.loadsOKL] at h ⊢
+    exact ⟨h.1, loadsOKL_prefix a b h.2⟩
+
+mutual
+theorem loadsOK_transfer {Ω : Blobs} {k1 k2 : LoadEnv} : ∀ (f : FIS), (∀ p ∈ f.allLoads, aget k2 p = aget k1 p) →
+    FIS.loadsOK Ω k1 f → FIS.loadsOK Ω k2 f
+  | .mk _ _ _ subs loads, he, h => by
+    simp only [FIS.loadsOK] at h ⊢
+    simp only [FIS.allLoads, mem_append] at he
+    refine ⟨fun ps hps => ?_, loadsOKL_transfer subs (fun p hp => he p (Or.inr hp)) h.2⟩
+    obtain ⟨v, h1, h2⟩ := h.1 ps hps
+    exact ⟨v, h1, by rw [he ps.1 (Or.inl (mem_map.mpr ⟨ps, hps, rfl⟩))]; exact h2⟩
+theorem loadsOKL_transfer {Ω : Blobs} {k1 k2 : LoadEnv} : ∀ (fs : List FIS), (∀ p ∈ FIS.allLoadsL fs, aget k2 p = aget k1 p) →
+    FIS.loadsOKL Ω k1 fs → FIS.loadsOKL Ω k2 fs
+  | [], _, _ => trivial
+  | f :: fs, he, h => by
+    simp only [FIS.loadsOKL] at h ⊢
+    simp only [FIS.allLoadsL, mem_append] at he
+    exact ⟨loadsOK_transfer f (fun p hp => he p (Or.inl hp)) h.1, loadsOKL_transfer fs (fun p hp => he p (Or.inr hp)) h.2⟩
+end
+
+theorem lookupRefs_mem {refs : Refs} : ∀ {ps : List String} {d : List (String × Sg)}, lookupRefs refs ps = .ok d →
+    ∀ p ∈ ps, ∃ s, aget refs p = some s ∧ (p, s) ∈ d
+  | [], _, _, p, hp => by cases hp
+  | q :: qs, d, h, p, hp => by
+    unfold lookupRefs at h
+    cases hg : aget refs q with
+    | none => simp [hg] at h
+    | some s =>
+      simp only [hg] at h
+      obtain ⟨r, hr, h⟩ := bind_ok h
+      simp only [pure, Except.pure, Except.ok.injEq] at h
+      subst h
+      rcases mem_cons.mp hp with rfl | hp
+      · exact ⟨s, hg, mem_cons_self⟩
+      · obtain ⟨s', h1, h2⟩ := lookupRefs_mem hr p hp
+        exact ⟨s', h1, mem_cons_of_mem _ h2⟩
+
+/-- storing under a key whose blob, if any, is that very value keeps every blob -/
+theorem extends_storeBlob' (S : PStore) (k : Sg) (v : RVal) (hsame : ∀ w, sgGet S.blobs k = some w → w = v) :
+    Extends S (S.storeBlob k v) := by
+  intro k' v' h
+  unfold PStore.storeBlob
+  by_cases hn : S.noop = true
+  · simp only [hn, if_true]; exact h
+  · simp only [hn, Bool.false_eq_true, if_false]
+    by_cases hk : k' = k
+    · subst hk; rw [hsame v' h]; simp [sgGet]
+    · have : sgGet ((k, v) :: S.blobs.filter (fun kv => kv.1 ≠ k)) k' = sgGet (S.blobs.filter (fun kv => kv.1 ≠ k)) k' := by
+        simp [sgGet, Ne.symm hk]
+      rw [this, sgGet_filter_ne _ _ _ hk]; exact h
+
+theorem Sound.storeBlob' {U : Universe} {m x : Nat} {S : PStore} (hS : Sound U m x S)
+    {W : World} {fn : Fn} {ctx : ArgCtx} {env : Env} {fuel : Nat} {refs : Refs} {stack : List String}
+    {fis : FIS} {r : Refs} {p : PSt} {v : RVal}
+    (hW : U.world W) (hx : W.extVersion = x) (hU : U.fns fn) (hc : Chain U m S.blobs W fn ctx env)
+    (ha : analyse m W fuel refs stack fn ctx = .ok (fis, r)) (hl : FIS.loadsOK S.blobs p.kept fis)
+    (hv : (plainFn W fuel p fn env).1 = .ok v) :
+    Sound U m x (S.storeBlob fis.retSig v) ∧ Extends S (S.storeBlob fis.retSig v) := by
+  have hsame : ∀ w, sgGet S.blobs fis.retSig = some w → w = v := by
+    intro w hw
+    have := served_right hS hW hx hU hc ha hw p hl
+    rw [hv] at this
+    exact (Except.ok.inj this).symm
+  have he := extends_storeBlob' S fis.retSig v hsame
+  refine ⟨?_, he⟩
+  intro k' v' h
+  rcases sgGet_storeBlob S _ _ _ _ h with ⟨rfl, rfl⟩ | h'
+  · exact ⟨W, fn, ctx, env, fuel, refs, stack, fis, r, p, hW, hx, hU, hc.mono he, ha, rfl, loadsOK_mono he fis hl, hv⟩
+  · exact hS.witness_mono he h'
+
+/-! ## What plain execution keeps at the paths of the evaluation -/
+
+mutual
+/-- the paths kept in an interaction tree -/
+def FIS.keptPaths : FIS → List String
+  | .mk _ _ p subs _ => (match p with | some q => [q] | none => []) ++ FIS.keptPathsL subs
+def FIS.keptPathsL : List FIS → List String
+  | [] => []
+  | f :: fs => FIS.keptPaths f ++ FIS.keptPathsL fs
+end
+
+theorem keptPaths_iff (f : FIS) (q : String) :
+    q ∈ f.keptPaths ↔ f.storePath = some q ∨ q ∈ FIS.keptPathsL f.subs := by
+  obtain ⟨n, s, p, subs, l⟩ := f
+  simp only [FIS.keptPaths, FIS.storePath, FIS.subs, mem_append]
+  cases p <;> simp [eq_comm]
+
+theorem keptPathsL_append : ∀ (a b : List FIS), FIS.keptPathsL (a ++ b) = FIS.keptPathsL a ++ FIS.keptPathsL b
+  | [], _ => rfl
+  | x :: a, b => by simp only [cons_append, FIS.keptPathsL, keptPathsL_append a b, append_assoc]
+
+theorem keptPathsL_mem {q : String} : ∀ {fs : List FIS} {f : FIS}, f ∈ fs → q ∈ f.keptPaths → q ∈ FIS.keptPathsL fs
+  | g :: fs, f, hm, hq => by
+    simp only [FIS.keptPathsL, mem_append]
+    rcases mem_cons.mp hm with rfl | hm
+    · exact Or.inl hq
+    · exact Or.inr (keptPathsL_mem hm hq)
+
+/-- at path `q`, plain execution holds the right value of the signature the evaluation maps the path to -/
+def PKq (U : Universe) (m x : Nat) (Ω : Blobs) (paths : List (String × Sg)) (K : LoadEnv) (q : String) : Prop :=
+  ∀ k, aget paths q = some k → ∃ v, aget K q = some v ∧ Right U m x Ω k v
+
+/-- every path is either as it was, or holds the right value of its signature -/
+def KStep (U : Universe) (m x : Nat) (Ω : Blobs) (paths : List (String × Sg)) (K K' : LoadEnv) : Prop :=
+  ∀ q, aget K' q = aget K q ∨ PKq U m x Ω paths K' q
+
+theorem PKq.congr {U : Universe} {m x : Nat} {Ω : Blobs} {paths : List (String × Sg)} {K K' : LoadEnv} {q : String}
+    (h : PKq U m x Ω paths K q) (e : aget K' q = aget K q) : PKq U m x Ω paths K' q := by
+  intro k hk
+  obtain ⟨v, h1, h2⟩ := h k hk
+  exact ⟨v, by rw [e]; exact h1, h2⟩
+
+theorem KStep.refl {U : Universe} {m x : Nat} {Ω : Blobs} {paths : List (String × Sg)} (K : LoadEnv) :
+    KStep U m x Ω paths K K := fun _ => Or.inl rfl
+
+theorem KStep.trans {U : Universe} {m x : Nat} {Ω : Blobs} {paths : List (String × Sg)} {A B C : LoadEnv}
+    (h1 : KStep U m x Ω paths A B) (h2 : KStep U m x Ω paths B C) : KStep U m x Ω paths A C := by
+  intro q
+  rcases h2 q with e | h
+  · rcases h1 q with e' | h'
+    · exact Or.inl (e.trans e')
+    · exact Or.inr (h'.congr e)
+  · exact Or.inr h
+
+theorem PKq.step {U : Universe} {m x : Nat} {Ω : Blobs} {paths : List (String × Sg)} {K K' : LoadEnv} {q : String}
+    (h : PKq U m x Ω paths K q) (hs : KStep U m x Ω paths K K') : PKq U m x Ω paths K' q := by
+  rcases hs q with e | h'
+  · exact h.congr e
+  · exact h'
+
+/-- the kept paths of the calls analysed so far, and of one more -/
+theorem pk_snoc {U : Universe} {m x : Nat} {Ω : Blobs} {paths : List (String × Sg)} {K K' : LoadEnv} {a : List FIS} {nd : FIS}
+    (hpk : ∀ q ∈ FIS.keptPathsL a, PKq U m x Ω paths K q) (hs : KStep U m x Ω paths K K')
+    (hnd : ∀ q ∈ nd.keptPaths, PKq U m x Ω paths K' q) : ∀ q ∈ FIS.keptPathsL (a ++ [nd]), PKq U m x Ω paths K' q := by
+  intro q hq
+  rw [keptPathsL_append] at hq
+  rcases mem_append.mp hq with h | h
+  · exact (hpk q h).step hs
+  · simp only [FIS.keptPathsL, append_nil] at h
+    exact hnd q h
+
+/-- what is fixed during one evaluation -/
+structure EvalCtx (U : Universe) (x : Nat) (W : World) : Prop where
+  hW : U.world W
+  hx : W.extVersion = x
+  hkp : W.keepsPlain
+
+/-- `SimFn fuel`: running the body of an analysed, chained call under dds (with the path map of the evaluation and a
+sound store) from a plain state that holds the blobs of the (external) paths the call loads gives the value of plain
+execution, leaves a sound store, and loses no blob -/
+def SimFn (U : Universe) (m x : Nat) (W : World) (paths : List (String × Sg)) (fuel : Nat) : Prop :=
+  ∀ (fn : Fn) (ctx : ArgCtx) (env : Env) (refs : Refs) (stack : List String) (fis : FIS) (r : Refs) (st : XSt) (q : PSt)
+    (Ω : Blobs),
+    U.fns fn → fn ∈ W.funs → Chain U m Ω W fn ctx env → analyse m W fuel refs stack fn ctx = .ok (fis, r) →
+    FIS.pathsOKL paths fis.subs → Sound U m x st.store → (∀ k v, sgGet Ω k = some v → sgGet st.store.blobs k = some v) →
+    FIS.loadsOK Ω q.kept fis →
+    (∀ p ∈ fis.allLoads, External paths p) →
+    (∀ p s, External paths p → aget refs p = some s → aget st.store.paths p = some s) →
+    (runFn W paths fuel st fn env).1 = (plainFn W fuel q fn env).1 ∧ Sound U m x (runFn W paths fuel st fn env).2.store ∧
+    Extends st.store (runFn W paths fuel st fn env).2.store ∧
+    KStep U m x Ω paths q.kept (plainFn W fuel q fn env).2.kept ∧
+    (∀ v, (plainFn W fuel q fn env).1 = .ok v →
+      ∀ path ∈ FIS.keptPathsL fis.subs, PKq U m x Ω paths (plainFn W fuel q fn env).2.kept path)
+
 /-- a kept call (explicit `keep`, or a data function) of an analysed, chained callee -/
 theorem sim_keep (U : Universe) {m x : Nat} {W : World} {paths : List (String × Sg)} {fuel : Nat}
-    (hIH : SimFn U m x W paths fuel) (hW : U.world W) (hx : W.extVersion = x)
+    (hIH : SimFn U m x W paths fuel) (E : EvalCtx U x W)
     {g : Fn} {ctx : ArgCtx} {env' : Env} {refs : Refs} {stack : List String} {fis : FIS} {rf : Refs} {xst : XSt} {path : String}
-    (hU : U.fns g) (hc : Chain U m W g ctx env') (ha : analyse m W fuel refs stack g ctx = .ok (fis, rf))
-    (hkey : aget paths path = some fis.retSig) (hsubs : FIS.pathsOKL paths fis.subs) (hS : Sound U m x xst.store) (q : PSt) :
+    {Ω : Blobs} (hU : U.fns g) (hgW : g ∈ W.funs) (hc : Chain U m Ω W g ctx env')
+    (ha : analyse m W fuel refs stack g ctx = .ok (fis, rf))
+    (hkey : aget paths path = some fis.retSig) (hsubs : FIS.pathsOKL paths fis.subs) (hS : Sound U m x xst.store)
+    (hΩ : ∀ k v, sgGet Ω k = some v → sgGet xst.store.blobs k = some v) (q : PSt)
+    (hl : FIS.loadsOK Ω q.kept fis) (hext : ∀ p ∈ fis.allLoads, External paths p)
+    (hrc : ∀ p s, External paths p → aget refs p = some s → aget xst.store.paths p = some s) :
     (keepExec paths (runFn W paths fuel) xst path g env').1 = (plainFn W fuel q g env').1 ∧
-    Sound U m x (keepExec paths (runFn W paths fuel) xst path g env').2.store := by
+    Sound U m x (keepExec paths (runFn W paths fuel) xst path g env').2.store ∧
+    Extends xst.store (keepExec paths (runFn W paths fuel) xst path g env').2.store := by
   unfold keepExec
   simp only [hkey]
   cases hb : sgGet xst.store.blobs fis.retSig with
   | some v =>
     simp only
-    exact ⟨(served_right hS hW hx hU hc ha hb q).symm, hS⟩
+    exact ⟨(served_right hS E.hW E.hx hU (hc.mono hΩ) ha hb q (loadsOK_mono hΩ fis hl)).symm, hS, Extends.refl _⟩
   | none =>
     simp only
-    obtain ⟨h1, h2⟩ := hIH g ctx env' refs stack fis rf xst q hU hc ha hsubs hS
+    obtain ⟨h1, h2, h3, _⟩ := hIH g ctx env' refs stack fis rf xst q Ω hU hgW hc ha hsubs hS hΩ hl hext hrc
     cases hr : runFn W paths fuel xst g env' with
     | mk res st' =>
-      rw [hr] at h1 h2
+      rw [hr] at h1 h2 h3
       cases res with
       | ok v =>
-        simp only at h1 ⊢
-        exact ⟨h1, Sound.storeBlob h2 hW hx hU hc ha h1.symm⟩
-      | error e => exact ⟨h1, h2⟩
+        simp only at h1 h2 h3 ⊢
+        have hΩ' : ∀ k v, sgGet Ω k = some v → sgGet st'.store.blobs k = some v := fun k v h => h3 k v (hΩ k v h)
+        obtain ⟨s1, s2⟩ := Sound.storeBlob' h2 E.hW E.hx hU (hc.mono hΩ') ha (loadsOK_mono hΩ' fis hl) h1.symm
+        exact ⟨h1, s1, h3.trans s2⟩
+      | error e => exact ⟨h1, h2, h3⟩
 
 /-- any call of an analysed, chained callee made while running under dds -/
 theorem sim_call (U : Universe) {m x : Nat} {W : World} {paths : List (String × Sg)} {fuel : Nat}
-    (hIH : SimFn U m x W paths fuel) (hW : U.world W) (hx : W.extVersion = x)
+    (hIH : SimFn U m x W paths fuel) (E : EvalCtx U x W)
     {g : Fn} {ctx : ArgCtx} {env' : Env} {refs : Refs} {stack : List String} {fis : FIS} {rf : Refs} {xst : XSt}
-    (hU : U.fns g) (hc : Chain U m W g ctx env') (ha : analyse m W fuel refs stack g ctx = .ok (fis, rf))
+    {Ω : Blobs} (hU : U.fns g) (hgW : g ∈ W.funs) (hc : Chain U m Ω W g ctx env')
+    (ha : analyse m W fuel refs stack g ctx = .ok (fis, rf))
     (kp : Option String)
     (hkey : ∀ path, (kp = some path ∨ (kp = none ∧ g.storePath = some path)) → aget paths path = some fis.retSig)
-    (hsubs : FIS.pathsOKL paths fis.subs) (hS : Sound U m x xst.store) (q : PSt) :
+    (hsubs : FIS.pathsOKL paths fis.subs) (hS : Sound U m x xst.store)
+    (hΩ : ∀ k v, sgGet Ω k = some v → sgGet xst.store.blobs k = some v) (q : PSt)
+    (hl : FIS.loadsOK Ω q.kept fis) (hext : ∀ p ∈ fis.allLoads, External paths p)
+    (hrc : ∀ p s, External paths p → aget refs p = some s → aget xst.store.paths p = some s) :
     (match kp with
       | some path => keepExec paths (runFn W paths fuel) xst path g env'
       | none => callExec paths (runFn W paths fuel) xst g env').1 = (plainFn W fuel q g env').1 ∧
     Sound U m x (match kp with
       | some path => keepExec paths (runFn W paths fuel) xst path g env'
+      | none => callExec paths (runFn W paths fuel) xst g env').2.store ∧
+    Extends xst.store (match kp with
+      | some path => keepExec paths (runFn W paths fuel) xst path g env'
       | none => callExec paths (runFn W paths fuel) xst g env').2.store := by
   cases kp with
-  | some path => exact sim_keep U hIH hW hx hU hc ha (hkey path (Or.inl rfl)) hsubs hS q
+  | some path => exact sim_keep U hIH E hU hgW hc ha (hkey path (Or.inl rfl)) hsubs hS hΩ q hl hext hrc
   | none =>
     simp only [callExec]
     cases hp : g.storePath with
-    | some path => exact sim_keep U hIH hW hx hU hc ha (hkey path (Or.inr ⟨rfl, hp⟩)) hsubs hS q
-    | none => exact hIH g ctx env' refs stack fis rf xst q hU hc ha hsubs hS
+    | some path => exact sim_keep U hIH E hU hgW hc ha (hkey path (Or.inr ⟨rfl, hp⟩)) hsubs hS hΩ q hl hext hrc
+    | none =>
+      obtain ⟨h1, h2, h3, _⟩ := hIH g ctx env' refs stack fis rf xst q Ω hU hgW hc ha hsubs hS hΩ hl hext hrc
+      exact ⟨h1, h2, h3⟩
 
-/-- the body of an analysed, chained call that is being run -/
-structure BodyCtx (U : Universe) (m x : Nat) (W : World) (fn : Fn) (cctx : ArgCtx) (env : Env)
-    (ev : List (String × Sg)) (io : Option Sg) : Prop where
-  hW : U.world W
-  hx : W.extVersion = x
+/-- the body of an analysed, chained call that is being run: the whole body has been analysed (`sfin`), the plain state `q0` the
+body is run from holds, at every (external) path loaded in the body or below, the blob of the signature it resolved to -/
+structure BodyCtx (U : Universe) (m x : Nat) (W : World) (paths : List (String × Sg)) (fuel : Nat) (fn : Fn) (cctx : ArgCtx)
+    (env : Env) (ev : List (String × Sg)) (io : Option Sg) (stack : List String) (refs : Refs) (Ω0 : Blobs) (q0 : PSt)
+    (sfin : VisitSt) (deps : List (String × Sg)) : Prop where
+  E : EvalCtx U x W
   hU : U.fns fn
-  hch : Chain U m W fn cctx env
+  hfW : fn ∈ W.funs
+  hch : Chain U m Ω0 W fn cctx env
   hev : hashVars m fn.vars = .ok ev
   hio : buildReturnSig none cctx [] [] fn.exts ev = .ok io
+  hvisit : visitItems m W (analyse m W fuel) fn (io.getD (hJoin [])) stack { refs := refs } fn.items = .ok sfin
+  hdeps : lookupRefs sfin.refs (dedupStr sfin.loads) = .ok deps
+  hok : FIS.pathsOKL paths sfin.inters
+  hlsubs : FIS.loadsOKL Ω0 q0.kept sfin.inters
+  hlown : ∀ ps ∈ deps, ∃ v, sgGet Ω0 ps.2 = some v ∧ aget q0.kept ps.1 = some v
+  hextL : ∀ p ∈ sfin.loads, External paths p
+  hextT : ∀ p ∈ FIS.allLoadsL sfin.inters, External paths p
 
 theorem callee_consts {it : Item} {f : String} {args : List AstArg} {kwargs : List (String × AstArg)}
     {rtA : List (Option RtExpr)} {rtK : List (String × Option RtExpr)} (h : it.callee = some (f, args, kwargs, rtA, rtK)) :
@@ -546,22 +1034,34 @@ theorem callee_consts {it : Item} {f : String} {args : List AstArg} {kwargs : Li
   | load pth l => simp [Item.callee] at h
   | evalCall g l => simp [Item.callee] at h
 
+theorem visitItems_append_inv {m : Nat} {W : World} {rec : Analyse} {fn : Fn} {isig : Sg} {stack : List String} :
+    ∀ {pre its : List Item} {s0 sfin : VisitSt}, visitItems m W rec fn isig stack s0 (pre ++ its) = .ok sfin →
+    ∃ s, visitItems m W rec fn isig stack s0 pre = .ok s ∧ visitItems m W rec fn isig stack s its = .ok sfin
+  | [], its, s0, sfin, h => ⟨s0, rfl, h⟩
+  | a :: pre, its, s0, sfin, h => by
+    obtain ⟨t, h1, h2⟩ := visitItems_cons_inv (by simpa using h)
+    obtain ⟨s, h3, h4⟩ := visitItems_append_inv h2
+    exact ⟨s, by simp only [visitItems, h1, ok_bind]; exact h3, h4⟩
+
 /-- the chain of a call made from the body of a chained call -/
-theorem sub_chain {U : Universe} {m x : Nat} {W : World} {fn : Fn} {cctx : ArgCtx} {env : Env}
-    {ev : List (String × Sg)} {io : Option Sg} (B : BodyCtx U m x W fn cctx env ev io)
-    {fuel : Nat} {stack : List String} {refs : Refs} {p0 : PSt}
+theorem sub_chain {U : Universe} {m x : Nat} {W : World} {paths : List (String × Sg)} {fuel : Nat} {fn : Fn} {cctx : ArgCtx}
+    {env : Env} {ev : List (String × Sg)} {io : Option Sg} {stack : List String} {refs : Refs} {Ω0 : Blobs} {q0 : PSt}
+    {sfin : VisitSt} {deps : List (String × Sg)}
+    (B : BodyCtx U m x W paths fuel fn cctx env ev io stack refs Ω0 q0 sfin deps)
+    {Ω : Blobs} (he : ∀ k v, sgGet Ω0 k = some v → sgGet Ω k = some v)
     {pre post : List Item} {it : Item} {s : VisitSt} {results : List RVal}
     (hitems : fn.items = pre ++ it :: post)
     (hvis : visitItems m W (analyse m W fuel) fn (io.getD (hJoin [])) stack { refs := refs } pre = .ok s)
-    (hres : (plainItems W (plainFn W fuel) env p0 [] pre).1 = .ok results)
+    (hsuf : visitItems m W (analyse m W fuel) fn (io.getD (hJoin [])) stack s (it :: post) = .ok sfin)
+    (hres : (plainItems W (plainFn W fuel) env q0 [] pre).1 = .ok results)
     {f : String} {args : List AstArg} {kwargs : List (String × AstArg)} {rtA : List (Option RtExpr)}
     {rtK : List (String × Option RtExpr)} (hcallee : it.callee = some (f, args, kwargs, rtA, rtK))
     {g : Fn} {c : Option Sg} {named : List (String × Option Sg)} {fis : FIS} {rf : Refs}
     (hstep : CallStep m W (analyse m W fuel) fn (io.getD (hJoin [])) stack s f args kwargs it.line g c named fis rf)
     {env' : Env} (hbind : bindRun g.params (zipArgs results env args rtA) (zipKw results env kwargs rtK) 0 = some env') :
-    Chain U m W g ⟨named, c⟩ env' := by
+    Chain U m Ω W g ⟨named, c⟩ env' := by
   have hmem : it ∈ fn.items := by rw [hitems]; simp
-  have hUg := U.find B.hW hstep.find
+  have hUg := U.find B.E.hW hstep.find
   cases hall : allSome named with
   | some kvs =>
     obtain ⟨hc1, hc2⟩ := callee_consts hcallee
@@ -576,165 +1076,355 @@ theorem sub_chain {U : Universe} {m x : Nat} {W : World} {fn : Fn} {cctx : ArgCt
       (hashCommut (fisSigList (s.inters.map FIS.retSig) ++ loadsSigList s.refs (dedupStr s.loads)))
     rw [hk] at hc
     subst hc
-    exact Chain.site W fn cctx env fuel stack refs pre it post s results p0 f args kwargs rtA rtK g k named fis rf env' ev io
-      B.hch B.hW B.hU hitems B.hev B.hio hvis hres hcallee hstep hall hbind
+    -- the calls analysed so far are a prefix of those of the whole body
+    obtain ⟨d, hd⟩ := visitItems_grows hsuf
+    have hlo : FIS.loadsOKL Ω q0.kept s.inters := by
+      have := B.hlsubs
+      rw [hd] at this
+      exact loadsOKL_mono he _ (loadsOKL_prefix _ _ this)
+    -- the paths loaded so far resolve as they do at the end of the body (they are external)
+    have hlown : ∀ path ∈ s.loads, ∃ sg v, aget s.refs path = some sg ∧ sgGet Ω sg = some v ∧ aget q0.kept path = some v := by
+      intro path hp
+      obtain ⟨dl, hdl⟩ := visitItems_loads_grow hsuf
+      have hpf : path ∈ sfin.loads := by rw [hdl]; exact mem_append_left _ hp
+      obtain ⟨sg, h1, h2⟩ := lookupRefs_mem B.hdeps path ((mem_dedupStr path _).mpr hpf)
+      obtain ⟨v, h3, h4⟩ := B.hlown _ h2
+      have hfr := visitItems_refs_frame (aframe m W paths B.E.hkp fuel) B.E.hkp fn B.hfW _ stack (it :: post)
+        (fun y hy => by rw [hitems]; exact mem_append_right _ hy) s sfin hsuf B.hok path (B.hextL path hpf)
+      exact ⟨sg, v, by rw [← hfr]; exact h1, he _ _ h3, h4⟩
+    exact Chain.site W fn cctx env fuel stack refs pre it post s results q0 f args kwargs rtA rtK g k named fis rf env' ev io
+      (B.hch.mono he) B.E.hW B.hU hitems B.hev B.hio hvis hres hlo hlown hcallee hstep hall hbind
 
-theorem sim_callstep {U : Universe} {m x : Nat} {W : World} {paths : List (String × Sg)} {fuel : Nat}
-    (hIH : SimFn U m x W paths fuel) {fn : Fn} {cctx : ArgCtx} {env : Env}
-    {ev : List (String × Sg)} {io : Option Sg} (B : BodyCtx U m x W fn cctx env ev io)
-    {stack : List String} {refs : Refs} {p0 q : PSt}
-    {pre post : List Item} {it : Item} {s : VisitSt} {results : List RVal} {xst : XSt}
-    (hitems : fn.items = pre ++ it :: post)
-    (hvis : visitItems m W (analyse m W fuel) fn (io.getD (hJoin [])) stack { refs := refs } pre = .ok s)
-    (hplain : plainItems W (plainFn W fuel) env p0 [] pre = (.ok results, q))
-    {f : String} {args : List AstArg} {kwargs : List (String × AstArg)} {rtA : List (Option RtExpr)}
-    {rtK : List (String × Option RtExpr)} (hcallee : it.callee = some (f, args, kwargs, rtA, rtK))
-    {g : Fn} {c : Option Sg} {named : List (String × Option Sg)} {fis : FIS} {rf : Refs}
-    (hstep : CallStep m W (analyse m W fuel) fn (io.getD (hJoin [])) stack s f args kwargs it.line g c named fis rf)
-    (kp : Option String)
-    (hkey : ∀ path, (kp = some path ∨ (kp = none ∧ g.storePath = some path)) → aget paths path = some fis.retSig)
-    (hsubs : FIS.pathsOKL paths fis.subs) (hS : Sound U m x xst.store) :
-    (runCall W paths (runFn W paths fuel) xst f (zipArgs results env args rtA) (zipKw results env kwargs rtK) kp).1 =
-      callVal W (plainFn W fuel) q f (zipArgs results env args rtA) (zipKw results env kwargs rtK) ∧
-    Sound U m x (runCall W paths (runFn W paths fuel) xst f (zipArgs results env args rtA) (zipKw results env kwargs rtK) kp).2.store := by
-  simp only [runCall, callVal, hstep.find]
-  cases hb : bindRun g.params (zipArgs results env args rtA) (zipKw results env kwargs rtK) 0 with
-  | none => exact ⟨rfl, hS⟩
-  | some env' =>
-    have hres : (plainItems W (plainFn W fuel) env p0 [] pre).1 = .ok results := by rw [hplain]
-    have hc := sub_chain B hitems hvis hres hcallee hstep hb
-    exact sim_call U hIH B.hW B.hx (U.find B.hW hstep.find) hc hstep.sub kp hkey hsubs hS q
+theorem callRes_fst (W : World) (rec : PlainRec) (q : PSt) (f : String) (pos : List RVal) (kw : List (String × RVal))
+    (kp : Option String) (df : Bool) {g : Fn} (hf : W.find f = some g) {env' : Env} (hb : bindRun g.params pos kw 0 = some env') :
+    (callRes W rec q f pos kw kp df).1 = (rec q g env').1 := by
+  simp only [callRes, hf, hb]
+  cases rec q g env' with
+  | mk r st' => cases r <;> rfl
 
-/-- the functions already referenced by name in this body: analysed, chained, their kept paths resolved -/
-def SeenOK (U : Universe) (m : Nat) (W : World) (paths : List (String × Sg)) (fuel : Nat) (seen : List String) : Prop :=
+/-- the functions already referenced by name in this body: analysed, chained, their interaction tree part of the body's -/
+def SeenOK (U : Universe) (m : Nat) (W : World) (paths : List (String × Sg)) (fuel : Nat) (Ω : Blobs) (refsE : Refs)
+    (sfin : VisitSt) (seen : List String) : Prop :=
   ∀ f ∈ seen, ∃ (g : Fn) (ctx : ArgCtx) (fis : FIS) (rf refs0 : Refs) (stack0 : List String),
     W.find f = some g ∧ analyse m W fuel refs0 stack0 g ctx = .ok (fis, rf) ∧
-    (∀ env', bindRun g.params [] [] 0 = some env' → Chain U m W g ctx env') ∧ FIS.pathsOK paths fis
+    (∀ env', bindRun g.params [] [] 0 = some env' → Chain U m Ω W g ctx env') ∧ fis ∈ sfin.inters ∧
+    (∀ p, External paths p → aget refs0 p = aget refsE p)
 
-theorem sim_seen {U : Universe} {m x : Nat} {W : World} {paths : List (String × Sg)} {fuel : Nat}
-    (hIH : SimFn U m x W paths fuel) (hW : U.world W) (hx : W.extVersion = x) {seen : List String}
-    (hseen : SeenOK U m W paths fuel seen) {f : String} (hf : f ∈ seen) {xst : XSt} (hS : Sound U m x xst.store) (q : PSt) :
-    (runCall W paths (runFn W paths fuel) xst f [] [] none).1 = callVal W (plainFn W fuel) q f [] [] ∧
-    Sound U m x (runCall W paths (runFn W paths fuel) xst f [] [] none).2.store := by
-  obtain ⟨g, ctx, fis, rf, refs0, stack0, hfind, ha, hch, hok⟩ := hseen f hf
-  simp only [runCall, callVal, hfind]
-  cases hb : bindRun g.params [] [] 0 with
-  | none => exact ⟨rfl, hS⟩
-  | some env' =>
-    obtain ⟨k1, k2⟩ := (pathsOK_iff paths fis).mp hok
-    refine sim_call U hIH hW hx (U.find hW hfind) (hch env' hb) ha none ?_ k2 hS q
+theorem SeenOK.mono {U : Universe} {m : Nat} {W : World} {paths : List (String × Sg)} {fuel : Nat} {Ω Ω' : Blobs} {refsE : Refs}
+    {sfin : VisitSt} {seen : List String}
+    (h : SeenOK U m W paths fuel Ω refsE sfin seen) (he : ∀ k v, sgGet Ω k = some v → sgGet Ω' k = some v) :
+    SeenOK U m W paths fuel Ω' refsE sfin seen := by
+  intro f hf
+  obtain ⟨g, ctx, fis, rf, refs0, stack0, h1, h2, h3, h4, h5⟩ := h f hf
+  exact ⟨g, ctx, fis, rf, refs0, stack0, h1, h2, fun env' hb => (h3 env' hb).mono he, h4, h5⟩
+
+/-- a call made from the body, whose analysed tree `fis` (recorded as `nd` in the body's tree) is known -/
+theorem sim_node {U : Universe} {m x : Nat} {W : World} {paths : List (String × Sg)} {fuel : Nat}
+    (hIH : SimFn U m x W paths fuel) {fn : Fn} {cctx : ArgCtx}
+    {env : Env} {ev : List (String × Sg)} {io : Option Sg} {stack : List String} {refs : Refs} {Ω0 : Blobs} {q0 : PSt}
+    {sfin : VisitSt} {deps : List (String × Sg)}
+    (B : BodyCtx U m x W paths fuel fn cctx env ev io stack refs Ω0 q0 sfin deps)
+    {xst : XSt} {q : PSt} (hS : Sound U m x xst.store) (he : ∀ k v, sgGet Ω0 k = some v → sgGet xst.store.blobs k = some v)
+    (hkf : KFrame paths q0 q)
+    {f : String} {g : Fn} {ctx : ArgCtx} {fis nd : FIS} {rf refs0 : Refs} {stack0 : List String}
+    (hfind : W.find f = some g) (ha : analyse m W fuel refs0 stack0 g ctx = .ok (fis, rf))
+    (hin : nd ∈ sfin.inters) (hsig : nd.retSig = fis.retSig) (hsubs : nd.subs = fis.subs) (hloads : nd.loads = fis.loads)
+    (kp : Option String) (df : Bool) (hsp : nd.storePath = (match kp with | some p => some p | none => g.storePath))
+    (hdf : kp = none → df = true)
+    (pos : List RVal) (kw : List (String × RVal))
+    (hch : ∀ env', bindRun g.params pos kw 0 = some env' → Chain U m Ω0 W g ctx env')
+    (hrc : ∀ p s, External paths p → aget refs0 p = some s → aget xst.store.paths p = some s) :
+    (runCall W paths (runFn W paths fuel) xst f pos kw kp).1 = (callRes W (plainFn W fuel) q f pos kw kp df).1 ∧
+    Sound U m x (runCall W paths (runFn W paths fuel) xst f pos kw kp).2.store ∧
+    Extends xst.store (runCall W paths (runFn W paths fuel) xst f pos kw kp).2.store ∧
+    KFrame paths q (callRes W (plainFn W fuel) q f pos kw kp df).2 ∧
+    KStep U m x Ω0 paths q.kept (callRes W (plainFn W fuel) q f pos kw kp df).2.kept ∧
+    (∀ v, (callRes W (plainFn W fuel) q f pos kw kp df).1 = .ok v →
+      ∀ path ∈ nd.keptPaths, PKq U m x Ω0 paths (callRes W (plainFn W fuel) q f pos kw kp df).2.kept path) := by
+  obtain ⟨k1, k2⟩ := (pathsOK_iff paths nd).mp (pathsOKL_mem B.hok hin)
+  rw [hsig] at k1; rw [hsubs] at k2
+  have hkey : ∀ path, (kp = some path ∨ (kp = none ∧ g.storePath = some path)) → aget paths path = some fis.retSig := by
     intro path hp
-    rcases hp with hp | ⟨_, hp⟩
-    · cases hp
-    · exact k1 path (by rw [analyse_storePath ha, hp])
+    apply k1 path
+    rw [hsp]
+    rcases hp with rfl | ⟨rfl, hp⟩
+    · rfl
+    · exact hp
+  -- the frame of the plain side
+  have hfr : KFrame paths q (callRes W (plainFn W fuel) q f pos kw kp df).2 := by
+    refine callRes_frame (pframe m W paths fuel) hfind ha k2 kp df (fun path hp => ?_) q pos kw
+    have : aget paths path = some fis.retSig := by
+      rcases hp with h | ⟨h1, _, h3⟩
+      · exact hkey path (Or.inl h)
+      · exact hkey path (Or.inr ⟨h1, h3⟩)
+    rw [this]; simp
+  cases hb : bindRun g.params pos kw 0 with
+  | none =>
+    refine ⟨?_, ?_, ?_, hfr, ?_, ?_⟩
+    · simp only [runCall, callRes, hfind, hb]
+    · simp only [runCall, hfind, hb]; exact hS
+    · simp only [runCall, hfind, hb]; exact Extends.refl _
+    · simp only [callRes, hfind, hb]; exact KStep.refl _
+    · simp only [callRes, hfind, hb]; intro v hv; cases hv
+  | some env' =>
+    -- the loads of the callee's tree: external, and the current plain state holds their blobs
+    have hall : nd.allLoads = fis.allLoads := by
+      obtain ⟨n1, s1, p1, subs1, l1⟩ := nd
+      obtain ⟨n2, s2, p2, subs2, l2⟩ := fis
+      simp only [FIS.subs, FIS.loads] at hsubs hloads
+      simp only [FIS.allLoads, hsubs, hloads]
+    have hext : ∀ p ∈ fis.allLoads, External paths p := fun p hp => B.hextT p (allLoadsL_mem hin (hall ▸ hp))
+    have hl0 : FIS.loadsOK Ω0 q0.kept fis := by
+      have := loadsOKL_mem B.hlsubs hin
+      rw [loadsOK_iff] at this ⊢
+      rw [← hsubs, ← hloads]; exact this
+    have hl : FIS.loadsOK Ω0 q.kept fis := loadsOK_transfer fis (fun p hp => hkf p (hext p hp)) hl0
+    have hUg := U.find B.E.hW hfind
+    have hgW := List.mem_of_find?_eq_some hfind
+    have hs := sim_call U hIH B.E hUg hgW (hch env' hb) ha kp hkey k2 hS he q hl hext hrc
+    obtain ⟨_, _, _, p4, p5⟩ := hIH g ctx env' refs0 stack0 fis rf xst q Ω0 hUg hgW (hch env' hb) ha k2 hS he hl hext hrc
+    -- the path the plain side writes is the path of the node
+    have hplain : (∀ v, (plainFn W fuel q g env').1 = .ok v →
+          KStep U m x Ω0 paths (plainFn W fuel q g env').2.kept (callRes W (plainFn W fuel) q f pos kw kp df).2.kept ∧
+          ∀ path ∈ nd.keptPaths, PKq U m x Ω0 paths (callRes W (plainFn W fuel) q f pos kw kp df).2.kept path) ∧
+        (∀ e, (plainFn W fuel q g env').1 = .error e →
+          (callRes W (plainFn W fuel) q f pos kw kp df).2 = (plainFn W fuel q g env').2) := by
+      simp only [callRes, hfind, hb]
+      cases hp : plainFn W fuel q g env' with
+      | mk pv q1 =>
+        rw [hp] at p4 p5
+        simp only at p4 p5
+        cases pv with
+        | error e => exact ⟨fun v hv => (by cases hv), fun _ _ => rfl⟩
+        | ok v =>
+          refine ⟨fun v' hv' => ?_, fun e he => (by cases he)⟩
+          simp only [Except.ok.injEq] at hv'
+          subst hv'
+          simp only
+          have gen : ∀ (wp : Option String), nd.storePath = wp →
+              KStep U m x Ω0 paths q1.kept
+                (match wp with | some p => ({ q1 with kept := aset q1.kept p v } : PSt) | none => q1).kept ∧
+              ∀ path ∈ nd.keptPaths, PKq U m x Ω0 paths
+                (match wp with | some p => ({ q1 with kept := aset q1.kept p v } : PSt) | none => q1).kept path := by
+            intro wp hnp
+            cases wp with
+            | none =>
+              simp only
+              refine ⟨KStep.refl _, fun path hpath => ?_⟩
+              rcases (keptPaths_iff nd path).mp hpath with h | h
+              · rw [hnp] at h; cases h
+              · rw [hsubs] at h; exact p5 v rfl path h
+            | some pw =>
+              simp only
+              have hkp : aget paths pw = some fis.retSig := k1 pw hnp
+              have hpw : PKq U m x Ω0 paths (aset q1.kept pw v) pw := by
+                intro k hk
+                rw [hkp] at hk
+                simp only [Option.some.injEq] at hk
+                subst hk
+                refine ⟨v, aget_aset_eq _ _ _, W, g, ctx, env', fuel, refs0, stack0, fis, rf, q, B.E.hW, B.E.hx, hUg, hch env' hb, ha,
+                  rfl, hl, ?_⟩
+                rw [hp]
+              have hst : KStep U m x Ω0 paths q1.kept (aset q1.kept pw v) := by
+                intro path
+                by_cases hpe : path = pw
+                · subst hpe; exact Or.inr hpw
+                · exact Or.inl (aget_aset_ne _ _ _ _ hpe)
+              refine ⟨hst, fun path hpath => ?_⟩
+              rcases (keptPaths_iff nd path).mp hpath with h | h
+              · rw [hnp] at h
+                simp only [Option.some.injEq] at h
+                subst h; exact hpw
+              · rw [hsubs] at h; exact (p5 v rfl path h).step hst
+          cases kp with
+          | some p => exact gen (some p) hsp
+          | none => simp only [hdf rfl, if_true]; exact gen g.storePath hsp
+    refine ⟨?_, ?_, ?_, hfr, ?_, ?_⟩
+    · rw [callRes_fst W _ q f pos kw kp df hfind hb]
+      simp only [runCall, hfind, hb]; exact hs.1
+    · simp only [runCall, hfind, hb]; exact hs.2.1
+    · simp only [runCall, hfind, hb]; exact hs.2.2
+    · cases hv : (plainFn W fuel q g env').1 with
+      | ok v => exact p4.trans (hplain.1 v hv).1
+      | error e => rw [hplain.2 e hv]; exact p4
+    · intro v hv
+      rw [callRes_fst W _ q f pos kw kp df hfind hb] at hv
+      exact (hplain.1 v hv).2
 
-theorem mem_final_inters {m : Nat} {W : World} {rec : Analyse} {fn : Fn} {isig : Sg} {stack : List String}
-    {its : List Item} {t sfin : VisitSt} (hr : visitItems m W rec fn isig stack t its = .ok sfin) {f : FIS}
-    (hf : f ∈ t.inters) : f ∈ sfin.inters := by
-  obtain ⟨d, hd⟩ := visitItems_grows hr
-  rw [hd]; exact mem_append_left _ hf
+theorem runItemRes_paths (W : World) (rq : List (String × Sg)) (fuel : Nat) (env : Env) (st : XSt) (results : List RVal) (it : Item) :
+    (runItemRes W rq (runFn W rq fuel) env st results it).2.store.paths = st.store.paths := by
+  have hrec := runFn_paths W rq fuel
+  have call : ∀ f pos kw kp, (runCall W rq (runFn W rq fuel) st f pos kw kp).2.store.paths = st.store.paths := by
+    intro f pos kw kp
+    simp only [runCall]
+    cases W.find f with
+    | none => rfl
+    | some g =>
+      simp only
+      cases bindRun g.params pos kw 0 with
+      | none => rfl
+      | some env' =>
+        simp only
+        cases kp with
+        | some path => exact keepExec_paths rq _ hrec st path g env'
+        | none => exact callExec_paths rq _ hrec st g env'
+  cases it with
+  | call f l => exact call f _ _ _
+  | ref f l => exact call f _ _ _
+  | callArgs f a k ra rk l => exact call f _ _ _
+  | keep path f a k ra rk l => exact call f _ _ _
+  | load path l => simp only [runItemRes]; split <;> rfl
+  | evalCall f l => rfl
+
+theorem pathsOKL_prefix {paths : List (String × Sg)} : ∀ (a b : List FIS), FIS.pathsOKL paths (a ++ b) → FIS.pathsOKL paths a
+  | [], _, _ => trivial
+  | x :: a, b, h => by
+    simp only [cons_append, FIS.pathsOKL] at h ⊢
+    exact ⟨h.1, pathsOKL_prefix a b h.2⟩
 
 /-- **running the items of a body under dds = running them plainly** -/
 theorem sim_items {U : Universe} {m x : Nat} {W : World} {paths : List (String × Sg)} {fuel : Nat}
-    (hIH : SimFn U m x W paths fuel) {fn : Fn} {cctx : ArgCtx} {env : Env}
-    {ev : List (String × Sg)} {io : Option Sg} (B : BodyCtx U m x W fn cctx env ev io)
-    (stack : List String) (refs : Refs) (p0 : PSt) :
-    ∀ (its pre : List Item) (s sfin : VisitSt) (results : List RVal) (q : PSt) (xst : XSt),
+    (hIH : SimFn U m x W paths fuel) {fn : Fn} {cctx : ArgCtx}
+    {env : Env} {ev : List (String × Sg)} {io : Option Sg} {stack : List String} {refs : Refs} {Ω0 : Blobs} {q0 : PSt}
+    {sfin : VisitSt} {deps : List (String × Sg)}
+    (B : BodyCtx U m x W paths fuel fn cctx env ev io stack refs Ω0 q0 sfin deps) :
+    ∀ (its pre : List Item) (s : VisitSt) (results : List RVal) (q : PSt) (xst : XSt),
       fn.items = pre ++ its →
       visitItems m W (analyse m W fuel) fn (io.getD (hJoin [])) stack { refs := refs } pre = .ok s →
-      plainItems W (plainFn W fuel) env p0 [] pre = (.ok results, q) →
+      plainItems W (plainFn W fuel) env q0 [] pre = (.ok results, q) →
       visitItems m W (analyse m W fuel) fn (io.getD (hJoin [])) stack s its = .ok sfin →
-      FIS.pathsOKL paths sfin.inters → SeenOK U m W paths fuel s.seen → Sound U m x xst.store →
+      SeenOK U m W paths fuel Ω0 refs sfin s.seen → Sound U m x xst.store →
+      (∀ k v, sgGet Ω0 k = some v → sgGet xst.store.blobs k = some v) → KFrame paths q0 q →
+      (∀ p sg, External paths p → aget refs p = some sg → aget xst.store.paths p = some sg) →
+      (∀ path ∈ FIS.keptPathsL s.inters, PKq U m x Ω0 paths q.kept path) →
       (runItems W (some paths) (runFn W paths fuel) fn env xst results its).1 =
         (plainItems W (plainFn W fuel) env q results its).1 ∧
-      Sound U m x (runItems W (some paths) (runFn W paths fuel) fn env xst results its).2.store
-  | [], _, _, _, _, _, _, _, _, _, _, _, _, hS => ⟨rfl, hS⟩
-  | it :: its, pre, s, sfin, results, q, xst, hitems, hvis, hplain, hrest, hok, hseen, hS => by
+      Sound U m x (runItems W (some paths) (runFn W paths fuel) fn env xst results its).2.store ∧
+      Extends xst.store (runItems W (some paths) (runFn W paths fuel) fn env xst results its).2.store ∧
+      KStep U m x Ω0 paths q.kept (plainItems W (plainFn W fuel) env q results its).2.kept ∧
+      (∀ rs, (plainItems W (plainFn W fuel) env q results its).1 = .ok rs →
+        ∀ path ∈ FIS.keptPathsL sfin.inters, PKq U m x Ω0 paths (plainItems W (plainFn W fuel) env q results its).2.kept path)
+  | [], _, s, _, q, xst, _, _, _, hrest, _, hS, _, _, _, hpk => by
+    have hs : s = sfin := by simpa [visitItems, pure, Except.pure] using hrest
+    subst hs
+    exact ⟨rfl, hS, Extends.refl _, KStep.refl _, fun _ _ => hpk⟩
+  | it :: its, pre, s, results, q, xst, hitems, hvis, hplain, hrest, hseen, hS, he, hkf, hrc, hpk => by
     obtain ⟨t, hv, hr⟩ := visitItems_cons_inv hrest
     rw [runItems_cons, plainItems_cons]
     have hmem : it ∈ fn.items := by rw [hitems]; simp
+    have hres : (plainItems W (plainFn W fuel) env q0 [] pre).1 = .ok results := by rw [hplain]
+    -- what the external paths resolve to has not changed since the entry of the body
+    have hsr : ∀ p, External paths p → aget s.refs p = aget refs p := by
+      intro p hp
+      obtain ⟨d, hd⟩ := visitItems_grows hrest
+      have hokS : FIS.pathsOKL paths s.inters := by
+        have := B.hok; rw [hd] at this; exact pathsOKL_prefix _ _ this
+      exact visitItems_refs_frame (aframe m W paths B.E.hkp fuel) B.E.hkp fn B.hfW _ stack pre
+        (fun y hy => by rw [hitems]; exact mem_append_left _ hy) _ s hvis hokS p hp
+    have hrcS : ∀ p sg, External paths p → aget s.refs p = some sg → aget xst.store.paths p = some sg :=
+      fun p sg hp h => hrc p sg hp (by rw [← hsr p hp]; exact h)
+    have hid : ∀ k v, sgGet Ω0 k = some v → sgGet Ω0 k = some v := fun _ _ h => h
     have claim : (runItemRes W paths (runFn W paths fuel) env xst results it).1 =
           (plainItemRes W (plainFn W fuel) env q results it).1 ∧
         Sound U m x (runItemRes W paths (runFn W paths fuel) env xst results it).2.store ∧
-        SeenOK U m W paths fuel t.seen := by
+        Extends xst.store (runItemRes W paths (runFn W paths fuel) env xst results it).2.store ∧
+        KFrame paths q (plainItemRes W (plainFn W fuel) env q results it).2 ∧
+        SeenOK U m W paths fuel Ω0 refs sfin t.seen ∧
+        KStep U m x Ω0 paths q.kept (plainItemRes W (plainFn W fuel) env q results it).2.kept ∧
+        (∀ v, (plainItemRes W (plainFn W fuel) env q results it).1 = .ok v →
+          ∀ path ∈ FIS.keptPathsL t.inters, PKq U m x Ω0 paths (plainItemRes W (plainFn W fuel) env q results it).2.kept path) := by
       cases it with
       | call f l =>
         obtain ⟨g, c, named, fis, rf, hstep, e⟩ := plain_inv (by simpa [visitItem] using hv)
         have hin : fis ∈ sfin.inters := mem_final_inters hr (by rw [e]; simp)
-        obtain ⟨k1, k2⟩ := (pathsOK_iff paths fis).mp (pathsOKL_mem hok hin)
-        have := sim_callstep hIH B hitems hvis hplain (it := .call f l) rfl hstep none
-          (fun path hp => by
-            rcases hp with hp | ⟨_, hp⟩
-            · cases hp
-            · exact k1 path (by rw [analyse_storePath hstep.sub, hp])) k2 hS (q := q)
-        rw [plainItemRes_call]
-        refine ⟨this.1, this.2, ?_⟩
-        rw [e]; exact hseen
+        have := sim_node hIH B hS he hkf hstep.find hstep.sub hin rfl rfl rfl none true (analyse_storePath hstep.sub)
+          (fun _ => rfl) [] []
+          (fun env' hb => sub_chain B hid hitems hvis hrest hres (it := .call f l) rfl hstep hb) hrcS
+        rw [plainItemRes_call']
+        exact ⟨this.1, this.2.1, this.2.2.1, this.2.2.2.1, by rw [e]; exact hseen, this.2.2.2.2.1,
+          fun v hv' => by rw [e]; exact pk_snoc hpk this.2.2.2.2.1 (this.2.2.2.2.2 v hv')⟩
       | callArgs f args kwargs rtA rtK l =>
         obtain ⟨g, c, named, fis, rf, hstep, e⟩ := plain_inv (by simpa [visitItem] using hv)
         have hin : fis ∈ sfin.inters := mem_final_inters hr (by rw [e]; simp)
-        obtain ⟨k1, k2⟩ := (pathsOK_iff paths fis).mp (pathsOKL_mem hok hin)
-        have := sim_callstep hIH B hitems hvis hplain (it := .callArgs f args kwargs rtA rtK l) rfl hstep none
-          (fun path hp => by
-            rcases hp with hp | ⟨_, hp⟩
-            · cases hp
-            · exact k1 path (by rw [analyse_storePath hstep.sub, hp])) k2 hS (q := q)
-        rw [plainItemRes_callArgs]
-        refine ⟨this.1, this.2, ?_⟩
-        rw [e]; exact hseen
+        have := sim_node hIH B hS he hkf hstep.find hstep.sub hin rfl rfl rfl none true (analyse_storePath hstep.sub)
+          (fun _ => rfl)
+          (zipArgs results env args rtA) (zipKw results env kwargs rtK)
+          (fun env' hb => sub_chain B hid hitems hvis hrest hres (it := .callArgs f args kwargs rtA rtK l) rfl hstep hb) hrcS
+        rw [plainItemRes_callArgs']
+        exact ⟨this.1, this.2.1, this.2.2.1, this.2.2.2.1, by rw [e]; exact hseen, this.2.2.2.2.1,
+          fun v hv' => by rw [e]; exact pk_snoc hpk this.2.2.2.2.1 (this.2.2.2.2.2 v hv')⟩
       | keep path f args kwargs rtA rtK l =>
         obtain ⟨g, c, named, fis, rf, hstep, _, e⟩ := keep_inv hv
         have hin : fis.withPath path ∈ sfin.inters := mem_final_inters hr (by rw [e]; simp)
-        obtain ⟨k1, k2⟩ := (pathsOK_iff paths _).mp (pathsOKL_mem hok hin)
-        have := sim_callstep hIH B hitems hvis hplain (it := .keep path f args kwargs rtA rtK l) rfl hstep (some path)
-          (fun path' hp => by
-            rcases hp with hp | ⟨hp, _⟩
-            · cases hp; exact k1 path rfl
-            · cases hp) k2 hS (q := q)
-        rw [plainItemRes_keep]
-        refine ⟨this.1, this.2, ?_⟩
-        rw [e]; exact hseen
+        have := sim_node hIH B hS he hkf hstep.find hstep.sub hin rfl rfl rfl (some path) false rfl
+          (fun h => by cases h)
+          (zipArgs results env args rtA) (zipKw results env kwargs rtK)
+          (fun env' hb => sub_chain B hid hitems hvis hrest hres (it := .keep path f args kwargs rtA rtK l) rfl hstep hb) hrcS
+        rw [plainItemRes_keep']
+        exact ⟨this.1, this.2.1, this.2.2.1, this.2.2.2.1, by rw [e]; exact hseen, this.2.2.2.2.1,
+          fun v hv' => by rw [e]; exact pk_snoc hpk this.2.2.2.2.1 (this.2.2.2.2.2 v hv')⟩
       | ref f l =>
-        rw [plainItemRes_ref]
+        rw [plainItemRes_ref']
         rcases ref_inv hv with ⟨hin, e⟩ | ⟨hnot, g, c, named, fis, rf, hstep, e⟩
-        · have := sim_seen hIH B.hW B.hx hseen hin hS q
-          refine ⟨this.1, this.2, ?_⟩
-          rw [e]; exact hseen
+        · obtain ⟨g, ctx, fis, rf, refs0, stack0, hfind, ha, hch, hfin, hr0⟩ := hseen f hin
+          have := sim_node hIH B hS he hkf hfind ha hfin rfl rfl rfl none true (analyse_storePath ha) (fun _ => rfl) [] [] hch
+            (fun p sg hp h => hrc p sg hp (by rw [← hr0 p hp]; exact h))
+          exact ⟨this.1, this.2.1, this.2.2.1, this.2.2.2.1, by rw [e]; exact hseen, this.2.2.2.2.1,
+            fun v hv' path hpath => by rw [e] at hpath; exact (hpk path hpath).step this.2.2.2.2.1⟩
         · have hin : fis ∈ sfin.inters := mem_final_inters hr (by rw [e]; simp)
-          have hfok := pathsOKL_mem hok hin
-          obtain ⟨k1, k2⟩ := (pathsOK_iff paths fis).mp hfok
-          have := sim_callstep hIH B hitems hvis hplain (it := .ref f l) rfl hstep none
-            (fun path hp => by
-              rcases hp with hp | ⟨_, hp⟩
-              · cases hp
-              · exact k1 path (by rw [analyse_storePath hstep.sub, hp])) k2 hS (q := q)
-          refine ⟨this.1, this.2, ?_⟩
+          have hch : ∀ env', bindRun g.params [] [] 0 = some env' → Chain U m Ω0 W g ⟨named, c⟩ env' :=
+            fun env' hb => sub_chain B hid hitems hvis hrest hres (it := .ref f l) rfl hstep hb
+          have := sim_node hIH B hS he hkf hstep.find hstep.sub hin rfl rfl rfl none true (analyse_storePath hstep.sub)
+            (fun _ => rfl) [] [] hch hrcS
+          refine ⟨this.1, this.2.1, this.2.2.1, this.2.2.2.1, ?_, this.2.2.2.2.1,
+            fun v hv' => by rw [e]; exact pk_snoc hpk this.2.2.2.2.1 (this.2.2.2.2.2 v hv')⟩
           rw [e]
           intro f' hf'
           rcases mem_cons.mp hf' with rfl | hf'
-          · refine ⟨g, ⟨named, c⟩, fis, rf, s.refs, stack ++ [f'], hstep.find, hstep.sub, ?_, hfok⟩
-            intro env' hb
-            have hres : (plainItems W (plainFn W fuel) env p0 [] pre).1 = .ok results := by rw [hplain]
-            exact sub_chain B hitems hvis hres (it := .ref f' l) rfl hstep hb
+          · exact ⟨g, ⟨named, c⟩, fis, rf, s.refs, stack ++ [f'], hstep.find, hstep.sub, hch, hin, hsr⟩
           · exact hseen f' hf'
-      | load path l => exact absurd (U.noLoads fn B.hU _ hmem) (by simp [Item.noLoad])
-      | evalCall f l => exact absurd (U.noLoads fn B.hU _ hmem) (by simp [Item.noLoad])
-    obtain ⟨c1, c2, c3⟩ := claim
+      | load path l =>
+        have e := load_inv hv
+        -- the path is external and is loaded by the body: the store has committed it to a key, and the plain state holds
+        -- the blob under that key
+        obtain ⟨dl, hdl⟩ := visitItems_loads_grow hr
+        have hpf : path ∈ sfin.loads := by rw [hdl, e]; simp
+        have hpe := B.hextL path hpf
+        obtain ⟨sg, h1, h2⟩ := lookupRefs_mem B.hdeps path ((mem_dedupStr path _).mpr hpf)
+        obtain ⟨v, h3, h4⟩ := B.hlown _ h2
+        have hq : aget q.kept path = some v := by rw [hkf path hpe]; exact h4
+        have hfin : aget sfin.refs path = aget refs path :=
+          visitItems_refs_frame (aframe m W paths B.E.hkp fuel) B.E.hkp fn B.hfW _ stack fn.items (fun _ h => h) _ sfin B.hvisit
+            B.hok path hpe
+        have hcom : aget xst.store.paths path = some sg := hrc path sg hpe (by rw [← hfin]; exact h1)
+        have hpn : aget paths path = none := hpe
+        refine ⟨?_, ?_, ?_, ?_, by rw [e]; exact hseen, ?_, ?_⟩
+        · simp only [plainItemRes, runItemRes, hq, hpn, hcom, Option.orElse, he sg v h3, Option.getD_some]
+        · simp only [runItemRes]; split <;> exact hS
+        · simp only [runItemRes]; split <;> exact Extends.refl _
+        · simp only [plainItemRes, hq]; exact KFrame.refl _ _
+        · simp only [plainItemRes, hq]; exact KStep.refl _
+        · simp only [plainItemRes, hq]; rw [e]; exact fun _ _ => hpk
+      | evalCall f l => exact absurd (by simp [Item.isEval]) (U.noEval fn B.hU _ hmem)
+    obtain ⟨c1, c2, c3, c4, c5, c6, c7⟩ := claim
+    have hpaths := runItemRes_paths W paths fuel env xst results it
     cases hR : runItemRes W paths (runFn W paths fuel) env xst results it with
     | mk rv xst' =>
       cases hP : plainItemRes W (plainFn W fuel) env q results it with
       | mk pv q' =>
         rw [hR, hP] at c1
-        rw [hR] at c2
-        simp only at c1 c2
+        rw [hR] at c2 c3 hpaths
+        rw [hP] at c4 c6 c7
+        simp only at c1 c2 c3 c4 c6 c7 hpaths
         subst c1
         cases rv with
-        | error e => exact ⟨rfl, c2⟩
+        | error e => exact ⟨rfl, c2, c3, c6, fun rs hrs => by cases hrs⟩
         | ok v =>
           simp only
-          exact sim_items hIH B stack refs p0 its (pre ++ [it]) t sfin (results ++ [v]) q' xst'
-            (by rw [hitems]; simp) (visitItems_snoc hvis hv) (plainItems_snoc W _ env pre p0 q q' [] results it v hplain hP)
-            hr hok c3 c2
+          obtain ⟨i1, i2, i3, i4, i5⟩ := sim_items hIH B its (pre ++ [it]) t (results ++ [v]) q' xst'
+            (by rw [hitems]; simp) (visitItems_snoc hvis hv) (plainItems_snoc W _ env pre q0 q q' [] results it v hplain hP)
+            hr c5 c2 (fun k w h => c3 k w (he k w h)) (hkf.trans c4) (by rw [hpaths]; exact hrc) (c7 v rfl)
+          exact ⟨i1, i2, c3.trans i3, c6.trans i4, i5⟩
 
 theorem runFn_succ (W : World) (paths : List (String × Sg)) (fuel : Nat) (st : XSt) (fn : Fn) (env : Env) :
     (runFn W paths (fuel + 1) st fn env).1 =
@@ -751,25 +1441,160 @@ theorem runFn_succ (W : World) (paths : List (String × Sg)) (fuel : Nat) (st : 
     cases fn.fails <;> exact ⟨rfl, rfl⟩
 
 /-- **Simulation theorem**: for every nesting depth, the body of an analysed, chained call run under dds against a
-sound store returns the plain value and leaves a sound store -/
-theorem sim_fn (U : Universe) (m x : Nat) (W : World) (paths : List (String × Sg)) (hW : U.world W)
-    (hx : W.extVersion = x) : ∀ fuel, SimFn U m x W paths fuel
+sound store returns the plain value, leaves a sound store and loses no blob; and plain execution leaves, at every path kept
+below the call, the right value of the signature the evaluation maps the path to -/
+theorem sim_fn (U : Universe) (m x : Nat) (W : World) (paths : List (String × Sg)) (E : EvalCtx U x W) :
+    ∀ fuel, SimFn U m x W paths fuel
   | 0 => by
-    intro fn ctx env refs stack fis r st p _ _ ha
+    intro fn ctx env refs stack fis r st q Ω _ _ _ ha
     exact absurd ha analyse_zero
   | k + 1 => by
-    intro fn ctx env refs stack fis r st p hU hch ha hsubs hS
+    intro fn ctx env refs stack fis r st q Ω hU hfW hch ha hsubs hS hΩ hl hext hrc
     obtain ⟨ev, io, sv, b, d, ret, a⟩ := analyse_inv ha
-    have B : BodyCtx U m x W fn ctx env ev io := ⟨hW, hx, hU, hch, a.hvars, a.hinput⟩
-    have hsub' : FIS.pathsOKL paths sv.inters := by
-      have : fis.subs = sv.inters := by rw [a.hfis]; rfl
-      rw [← this]; exact hsubs
+    have hsub : fis.subs = sv.inters := by rw [a.hfis]; rfl
+    have hlo : fis.loads = d := by rw [a.hfis]; rfl
+    have hall : fis.allLoads = d.map Prod.fst ++ FIS.allLoadsL sv.inters := by rw [a.hfis]; rfl
+    obtain ⟨l1, l2⟩ := (loadsOK_iff _ _ _).mp hl
+    rw [hlo] at l1; rw [hsub] at l2
+    have B : BodyCtx U m x W paths k fn ctx env ev io stack refs Ω { q with log := q.log ++ [fn.name] } sv d :=
+      { E := E, hU := hU, hfW := hfW, hch := hch, hev := a.hvars, hio := a.hinput, hvisit := a.hvisit, hdeps := a.hdeps,
+        hok := by rw [← hsub]; exact hsubs, hlsubs := l2, hlown := l1,
+        hextL := fun p hp => hext p (by
+          rw [hall, lookupRefs_fst a.hdeps]; exact mem_append_left _ ((mem_dedupStr p _).mpr hp)),
+        hextT := fun p hp => hext p (by rw [hall]; exact mem_append_right _ hp) }
     obtain ⟨r1, r2⟩ := runFn_succ W paths k st fn env
-    have := sim_items (sim_fn U m x W paths hW hx k) B stack refs { p with log := p.log ++ [fn.name] } fn.items [] _ sv []
-      { p with log := p.log ++ [fn.name] } { st with log := st.log ++ [fn.name] } rfl rfl rfl a.hvisit hsub'
-      (fun f hf => absurd hf (by simp)) hS
-    rw [r1, r2, plainFn_succ_fst, this.1]
-    exact ⟨rfl, this.2⟩
+    obtain ⟨i1, i2, i3, i4, i5⟩ := sim_items (sim_fn U m x W paths E k) B fn.items [] _ [] { q with log := q.log ++ [fn.name] }
+      { st with log := st.log ++ [fn.name] } rfl rfl rfl a.hvisit (fun f hf => absurd hf (by simp)) hS hΩ
+      (KFrame.refl _ _) hrc (fun path hp => absurd hp (by simp [FIS.keptPathsL]))
+    rw [r1, r2, plainFn_succ_fst, plainFn_succ_snd, i1]
+    refine ⟨rfl, i2, i3, i4, fun v hv => ?_⟩
+    obtain ⟨rs, hrs⟩ := bodyOutcome_ok hv
+    rw [hsub]
+    exact i5 rs hrs
+
+/-! ## The plain state at the start of an evaluation holds the blobs of the loaded paths -/
+
+theorem lookupRefs_sound {refs : Refs} : ∀ {ps : List String} {d : List (String × Sg)}, lookupRefs refs ps = .ok d →
+    ∀ p s, (p, s) ∈ d → p ∈ ps ∧ aget refs p = some s
+  | [], d, h, p, s, hm => by simp [lookupRefs] at h; subst h; cases hm
+  | q :: qs, d, h, p, s, hm => by
+    unfold lookupRefs at h
+    cases hg : aget refs q with
+    | none => simp [hg] at h
+    | some s' =>
+      simp only [hg] at h
+      obtain ⟨r, hr, h⟩ := bind_ok h
+      simp only [pure, Except.pure, Except.ok.injEq] at h
+      subst h
+      rcases mem_cons.mp hm with e | hm
+      · simp only [Prod.mk.injEq] at e
+        obtain ⟨rfl, rfl⟩ := e
+        exact ⟨mem_cons_self, hg⟩
+      · obtain ⟨h1, h2⟩ := lookupRefs_sound hr p s hm
+        exact ⟨mem_cons_of_mem _ h1, h2⟩
+
+/-- `LTree fuel`: if the plain state holds, at every external path the entry references resolve, the blob of the signature
+it resolves to, then it does so at every path loaded in the analysed tree -/
+def LTree (m : Nat) (W : World) (paths : List (String × Sg)) (Ω : Blobs) (K : LoadEnv) (fuel : Nat) : Prop :=
+  ∀ (refs : Refs) (stack : List String) (fn : Fn) (ctx : ArgCtx) (fis : FIS) (r : Refs), fn ∈ W.funs →
+    analyse m W fuel refs stack fn ctx = .ok (fis, r) → FIS.pathsOKL paths fis.subs →
+    (∀ p ∈ fis.allLoads, External paths p) →
+    (∀ p s, External paths p → aget refs p = some s → ∃ v, sgGet Ω s = some v ∧ aget K p = some v) →
+    FIS.loadsOK Ω K fis
+
+theorem ltree_items {m : Nat} {W : World} {paths : List (String × Sg)} {Ω : Blobs} {K : LoadEnv} {fuel : Nat}
+    (hIH : LTree m W paths Ω K fuel) (hkp : W.keepsPlain) (fn : Fn) (hfW : fn ∈ W.funs) (isig : Sg) (stack : List String)
+    (refs : Refs) (hK : ∀ p s, External paths p → aget refs p = some s → ∃ v, sgGet Ω s = some v ∧ aget K p = some v) :
+    ∀ (its : List Item), (∀ it ∈ its, it ∈ fn.items) → ∀ (s sfin : VisitSt),
+      visitItems m W (analyse m W fuel) fn isig stack s its = .ok sfin → FIS.pathsOKL paths sfin.inters →
+      (∀ p ∈ FIS.allLoadsL sfin.inters, External paths p) →
+      (∀ p, External paths p → aget s.refs p = aget refs p) →
+      FIS.loadsOKL Ω K s.inters → FIS.loadsOKL Ω K sfin.inters
+  | [], _, s, sfin, h, _, _, _, hl => by simp [visitItems] at h; subst h; exact hl
+  | it :: its, hits, s, sfin, h, hok, hext, hsr, hl => by
+    obtain ⟨t, hv, hr⟩ := visitItems_cons_inv h
+    have hits' : ∀ y ∈ its, y ∈ fn.items := fun y hy => hits y (mem_cons_of_mem _ hy)
+    have loadsOKL_snoc : ∀ (l : List FIS) (nd : FIS), FIS.loadsOKL Ω K l → FIS.loadsOK Ω K nd → FIS.loadsOKL Ω K (l ++ [nd]) := by
+      intro l
+      induction l with
+      | nil => intro nd _ h2; exact ⟨h2, trivial⟩
+      | cons a l ih =>
+        intro nd h1 h2
+        simp only [FIS.loadsOKL, cons_append] at h1 ⊢
+        exact ⟨h1.1, ih nd h1.2 h2⟩
+    -- the state after this item: external paths still resolve as at the entry
+    have htr : ∀ p, External paths p → aget t.refs p = aget refs p := by
+      intro p hp
+      obtain ⟨d, hd⟩ := visitItems_grows hr
+      have hokT : FIS.pathsOKL paths t.inters := by rw [hd] at hok; exact pathsOKL_prefix _ _ hok
+      rw [visitItems_refs_frame (aframe m W paths hkp fuel) hkp fn hfW isig stack [it] (fun y hy => hits y (by simp only [mem_singleton] at hy; rw [hy]; exact mem_cons_self)) s t
+        (by simp only [visitItems, hv, ok_bind]) hokT p hp]
+      exact hsr p hp
+    have node : ∀ (f : String) (g : Fn) (c : ArgCtx) (fis nd : FIS) (rf : Refs) (stack0 : List String),
+        W.find f = some g → analyse m W fuel s.refs stack0 g c = .ok (fis, rf) → nd ∈ sfin.inters →
+        nd.subs = fis.subs → nd.loads = fis.loads → FIS.loadsOK Ω K nd := by
+      intro f g c fis nd rf stack0 hfind ha hin hsubs hloads
+      obtain ⟨_, k2⟩ := (pathsOK_iff paths nd).mp (pathsOKL_mem hok hin)
+      rw [hsubs] at k2
+      have hall : nd.allLoads = fis.allLoads := by
+        obtain ⟨n1, s1, p1, subs1, l1⟩ := nd
+        obtain ⟨n2, s2, p2, subs2, l2⟩ := fis
+        simp only [FIS.subs, FIS.loads] at hsubs hloads
+        simp only [FIS.allLoads, hsubs, hloads]
+      have := hIH s.refs stack0 g c fis rf (List.mem_of_find?_eq_some hfind) ha k2
+        (fun p hp => hext p (allLoadsL_mem hin (hall ▸ hp)))
+        (fun p sg hp h => hK p sg hp (by rw [← hsr p hp]; exact h))
+      rw [loadsOK_iff] at this ⊢
+      rw [hsubs, hloads]; exact this
+    have step : ∀ (nd : FIS), t.inters = s.inters ++ [nd] → FIS.loadsOK Ω K nd → FIS.loadsOKL Ω K sfin.inters := by
+      intro nd e hnd
+      exact ltree_items hIH hkp fn hfW isig stack refs hK its hits' t sfin hr hok hext htr (by rw [e]; exact loadsOKL_snoc _ _ hl hnd)
+    cases it with
+    | call f l =>
+      obtain ⟨g, c, named, fis, rf, hstep, e⟩ := plain_inv (by simpa [visitItem] using hv)
+      have hin : fis ∈ sfin.inters := mem_final_inters hr (by rw [e]; simp)
+      exact step fis (by rw [e]) (node f g _ fis fis rf _ hstep.find hstep.sub hin rfl rfl)
+    | callArgs f a k ra rk l =>
+      obtain ⟨g, c, named, fis, rf, hstep, e⟩ := plain_inv (by simpa [visitItem] using hv)
+      have hin : fis ∈ sfin.inters := mem_final_inters hr (by rw [e]; simp)
+      exact step fis (by rw [e]) (node f g _ fis fis rf _ hstep.find hstep.sub hin rfl rfl)
+    | keep path f a k ra rk l =>
+      obtain ⟨g, c, named, fis, rf, hstep, _, e⟩ := keep_inv hv
+      have hin : fis.withPath path ∈ sfin.inters := mem_final_inters hr (by rw [e]; simp)
+      exact step (fis.withPath path) (by rw [e]) (node f g _ fis (fis.withPath path) rf _ hstep.find hstep.sub hin rfl rfl)
+    | ref f l =>
+      rcases ref_inv hv with ⟨_, e⟩ | ⟨_, g, c, named, fis, rf, hstep, e⟩
+      · rw [e] at hr htr
+        exact ltree_items hIH hkp fn hfW isig stack refs hK its hits' s sfin hr hok hext hsr hl
+      · have hin : fis ∈ sfin.inters := mem_final_inters hr (by rw [e]; simp)
+        exact step fis (by rw [e]) (node f g _ fis fis rf _ hstep.find hstep.sub hin rfl rfl)
+    | load path l =>
+      have e := load_inv hv
+      exact ltree_items hIH hkp fn hfW isig stack refs hK its hits' t sfin hr hok hext htr (by rw [e]; exact hl)
+    | evalCall f l => simp [visitItem] at hv
+
+theorem ltree (m : Nat) (W : World) (paths : List (String × Sg)) (Ω : Blobs) (K : LoadEnv) (hkp : W.keepsPlain) :
+    ∀ fuel, LTree m W paths Ω K fuel
+  | 0 => by
+    intro refs stack fn ctx fis r _ h
+    exact absurd h analyse_zero
+  | k + 1 => by
+    intro refs stack fn ctx fis r hfW h hok hext hK
+    obtain ⟨ev, io, sv, b, d, ret, a⟩ := analyse_inv h
+    have hsub : fis.subs = sv.inters := by rw [a.hfis]; rfl
+    have hall : fis.allLoads = d.map Prod.fst ++ FIS.allLoadsL sv.inters := by rw [a.hfis]; rfl
+    rw [hsub] at hok
+    have hsubsOK := ltree_items (ltree m W paths Ω K hkp k) hkp fn hfW _ stack refs hK fn.items (fun _ h => h) _ sv a.hvisit hok
+      (fun p hp => hext p (by rw [hall]; exact mem_append_right _ hp)) (fun _ _ => rfl) trivial
+    rw [a.hfis]
+    simp only [FIS.loadsOK]
+    refine ⟨?_, hsubsOK⟩
+    intro ps hps
+    obtain ⟨p, s⟩ := ps
+    obtain ⟨h1, h2⟩ := lookupRefs_sound a.hdeps p s hps
+    have hpe : External paths p := hext p (by rw [hall]; exact mem_append_left _ (mem_map.mpr ⟨(p, s), hps, rfl⟩))
+    have hfr := visitItems_refs_frame (aframe m W paths hkp k) hkp fn hfW _ stack fn.items (fun _ h => h) _ sv a.hvisit hok p hpe
+    exact hK p s hpe (by rw [← hfr]; exact h2)
 
 /-! ## One evaluation -/
 
@@ -782,6 +1607,27 @@ structure PhaseOk (m : Nat) (W : World) (S : PStore) (rq : Request) (fn : Fn) (e
   hfis : fis' = (match entryPathOf rq fn with | some p => fis.withPath p | none => fis)
   hpaths : allStorePaths [] fis' = .ok paths
   hbind : bindRun fn.params (rq.args.map RVal.py) (rq.kwargs.map (fun kv => (kv.1, RVal.py kv.2))) 0 = some env
+  hrefs0 : ∀ p s, aget refs0 p = some s → aget S.paths p = some s
+
+theorem fetchPaths_spec {S : PStore} : ∀ {ps : List String} {r : Refs}, fetchPaths S ps = .ok r →
+    ∀ p s, aget r p = some s → aget S.paths p = some s
+  | [], r, h, p, s, hp => by simp [fetchPaths] at h; subst h; simp [aget] at hp
+  | q :: qs, r, h, p, s, hp => by
+    unfold fetchPaths at h
+    cases hq : aget S.paths q with
+    | none => simp [hq] at h
+    | some k =>
+      simp only [hq] at h
+      obtain ⟨r', hr', h⟩ := bind_ok h
+      simp only [pure, Except.pure, Except.ok.injEq] at h
+      subst h
+      simp only [aget] at hp
+      by_cases hqp : q = p
+      · subst hqp
+        simp only [if_true, Option.some.injEq] at hp
+        subst hp; exact hq
+      · simp only [hqp, if_false] at hp
+        exact fetchPaths_spec hr' p s hp
 
 theorem analysisPhase_inv {m : Nat} {W : World} {S : PStore} {rq : Request} {fn : Fn} {env : Env} {fis' : FIS}
     {paths : List (String × Sg)} (h : analysisPhase m W S rq = .ok (fn, env, fis', paths)) :
@@ -827,7 +1673,7 @@ theorem analysisPhase_inv {m : Nat} {W : World} {S : PStore} {rq : Request} {fn 
                     | some env0 =>
                       simp only [hbd, Except.ok.injEq, Prod.mk.injEq] at h
                       obtain ⟨rfl, rfl, rfl, rfl⟩ := h
-                      exact ⟨named, refs0, fis, r, ⟨hf, liftA_ok hn, ha, rfl, hs, hbd⟩⟩
+                      exact ⟨named, refs0, fis, r, ⟨hf, liftA_ok hn, ha, rfl, hs, hbd, fetchPaths_spec hp⟩⟩
 
 theorem zipArgs_consts (results : List RVal) (env : Env) : ∀ (args : List PyVal),
     zipArgs results env (constArgs args) [] = args.map RVal.py
@@ -847,12 +1693,12 @@ theorem argPairs_allSome {a : ArgCtx} {pa : List (String × Sg)} (h : argPairs a
   | none => simp [hs, hi] at h
 
 /-- the chain of an entry call -/
-theorem root_chain (U : Universe) {m : Nat} (W : World) {fn : Fn} (hU : U.fns fn) {args : List PyVal} {kwargs : List (String × PyVal)}
+theorem root_chain (U : Universe) {m : Nat} (Ω : Blobs) (W : World) {fn : Fn} (hU : U.fns fn) {args : List PyVal} {kwargs : List (String × PyVal)}
     (hargs : ∀ a ∈ args, U.avals a) (hkw : ∀ kv ∈ kwargs, U.avals kv.2)
     {named : List (String × Option Sg)} (hn : getArgCtx m fn.params args kwargs = .ok named)
     {kvs : List (String × Sg)} (hall : allSome named = some kvs)
     {env : Env} (hb : bindRun fn.params (args.map RVal.py) (kwargs.map (fun kv => (kv.1, RVal.py kv.2))) 0 = some env) :
-    Chain U m W fn ⟨named, none⟩ env := by
+    Chain U m Ω W fn ⟨named, none⟩ env := by
   have hast := getArgCtxAstFrom_const m args kwargs fn.params 0 named (U.plainParams fn hU) hn
   rw [← zipArgs_consts [] [] args, ← zipKw_consts [] [] kwargs] at hb
   obtain ⟨vals, r1, r2, r3, r4⟩ := const_case U [] [] [] []
@@ -871,7 +1717,9 @@ theorem sync_blobs (S : PStore) (ps : List (String × Sg)) : (S.sync ps).blobs =
 
 theorem Sound.sync {U : Universe} {m x : Nat} {S : PStore} (h : Sound U m x S) (ps : List (String × Sg)) :
     Sound U m x (S.sync ps) := by
-  intro k v hk; rw [sync_blobs] at hk; exact h k v hk
+  intro k v hk
+  rw [sync_blobs] at hk ⊢
+  exact h k v hk
 
 /-- the request's arguments are values on which `dds_hash` is injective (`Universe.vals`) -/
 def Universe.request (U : Universe) (rq : Request) : Prop :=
@@ -880,78 +1728,108 @@ def Universe.request (U : Universe) (rq : Request) : Prop :=
 theorem withPath_retSig (f : FIS) (p : String) : (f.withPath p).retSig = f.retSig := rfl
 theorem withPath_subs (f : FIS) (p : String) : (f.withPath p).subs = f.subs := rfl
 
-/-- **`memo_correct`.** One evaluation, in any version of the code, against a sound store: when the analysis accepts
-the evaluation and the eval stage runs, the value returned (or the exception raised) is exactly that of plain
-execution of the current code with the current arguments; in every case the store stays sound. -/
-theorem memo_correct (U : Universe) (m x : Nat) (W : World) (S : PStore) (rq : Request)
-    (hW : U.world W) (hx : W.extVersion = x) (hrq : U.request rq) (hS : Sound U m x S) :
-    Sound U m x (evalStep m W S rq).store ∧
-    ∀ fn env fis' paths, analysisPhase m W S rq = .ok (fn, env, fis', paths) → Stage.eval ∈ rq.stages →
-      ∀ p, (evalStep m W S rq).value = ((plainFn W W.fuel p fn env).1).map some := by
-  cases ha : analysisPhase m W S rq with
-  | error e =>
-    refine ⟨?_, fun _ _ _ _ h => by cases h⟩
-    simp only [evalStep, ha]; exact hS
-  | ok res =>
-    obtain ⟨fn, env, fis', paths⟩ := res
-    obtain ⟨named, refs0, fis, r, P⟩ := analysisPhase_inv ha
+
+theorem withPath_allLoads' (f : FIS) (p : String) : (f.withPath p).allLoads = f.allLoads := withPath_allLoads f p
+
+/-- committed paths: the store has the blob of the key a path is committed to, and plain execution has kept that very value
+at the path -/
+def PathsKept (S : PStore) (K : LoadEnv) : Prop :=
+  ∀ p k, aget S.paths p = some k → ∃ v, sgGet S.blobs k = some v ∧ aget K p = some v
+
+/-- an evaluation the analysis rejects changes nothing and returns the error -/
+theorem evalStep_rejected {m : Nat} {W : World} {S : PStore} {rq : Request} {e : DdsErr}
+    (h : analysisPhase m W S rq = .error e) :
+    (evalStep m W S rq).store = S ∧ (evalStep m W S rq).value = .error (.dds e) := by
+  simp only [evalStep, h]; trivial
+
+/-- **`memo_correct`.** One evaluation, in any version of the code, against a sound store whose committed paths hold what
+plain execution has kept, accepted by the analysis, which does not itself produce the paths it loads: the store stays
+sound and loses no blob; when the eval stage runs, the value returned (or the exception raised) is exactly that of plain
+execution of the current code with the current arguments from the values kept so far; and plain execution leaves, at every
+path the evaluation keeps, the right value of the signature the evaluation commits the path to. -/
+theorem memo_correct (U : Universe) (m x : Nat) (W : World) (S : PStore) (K : LoadEnv) (rq : Request)
+    (E : EvalCtx U x W) (hrq : U.request rq) (hS : Sound U m x S) (hPK : PathsKept S K)
+    {fn : Fn} {env : Env} {fis' : FIS} {paths : List (String × Sg)}
+    (ha : analysisPhase m W S rq = .ok (fn, env, fis', paths)) (hext : ∀ p ∈ fis'.allLoads, External paths p) :
+    Sound U m x (evalStep m W S rq).store ∧ Extends S (evalStep m W S rq).store ∧
+    (Stage.eval ∈ rq.stages →
+      (evalStep m W S rq).value = ((plainFn W W.fuel { kept := K } fn env).1).map some) ∧
+    KStep U m x S.blobs paths K (plainFn W W.fuel { kept := K } fn env).2.kept ∧
+    (∀ v, (plainFn W W.fuel { kept := K } fn env).1 = .ok v →
+      Right U m x S.blobs fis'.retSig v ∧
+      ∀ path ∈ FIS.keptPathsL fis'.subs, PKq U m x S.blobs paths (plainFn W W.fuel { kept := K } fn env).2.kept path) := by
+  obtain ⟨named, refs0, fis, r, P⟩ := analysisPhase_inv ha
+  have hU := U.find E.hW P.hfind
+  have hfW : fn ∈ W.funs := List.mem_of_find?_eq_some P.hfind
+  obtain ⟨ev, io, sv, b, d, ret, a⟩ := analyse_inv (fuel := W.funs.length + 1) P.hana
+  obtain ⟨pa, hpa⟩ := buildReturnSig_argPairs a.hret
+  obtain ⟨kvs, hall⟩ := argPairs_allSome hpa rfl
+  have hch := root_chain U S.blobs W hU hrq.1 hrq.2 P.hnamed hall P.hbind
+  have hsig : fis'.retSig = fis.retSig := by rw [P.hfis]; cases entryPathOf rq fn <;> rfl
+  have hsubs' : fis'.subs = fis.subs := by rw [P.hfis]; cases entryPathOf rq fn <;> rfl
+  have hloads' : fis'.allLoads = fis.allLoads := by
+    rw [P.hfis]; cases entryPathOf rq fn
+    · rfl
+    · exact withPath_allLoads _ _
+  obtain ⟨k1, k2⟩ := (pathsOK_iff paths fis').mp ((allStorePaths_ok fis' [] paths P.hpaths).2 paths (fun _ _ h => h))
+  rw [hsubs'] at k2
+  rw [hsig] at k1
+  rw [hloads'] at hext
+  have hK : ∀ p s, External paths p → aget refs0 p = some s → ∃ v, sgGet S.blobs s = some v ∧ aget K p = some v :=
+    fun p s _ h => hPK p s (P.hrefs0 p s h)
+  have hl : FIS.loadsOK S.blobs K fis := ltree m W paths S.blobs K E.hkp W.fuel refs0 [] fn ⟨named, none⟩ fis r hfW P.hana k2 hext hK
+  obtain ⟨s1, s2, s3, s4, s5⟩ := sim_fn U m x W paths E W.fuel fn ⟨named, none⟩ env refs0 [] fis r { store := S } { kept := K }
+    S.blobs hU hfW hch P.hana k2 hS (fun _ _ h => h) hl hext (fun p s _ h => P.hrefs0 p s h)
+  have hright : ∀ v, (plainFn W W.fuel { kept := K } fn env).1 = .ok v → Right U m x S.blobs fis'.retSig v :=
+    fun v hv => ⟨W, fn, ⟨named, none⟩, env, W.fuel, refs0, [], fis, r, { kept := K }, E.hW, E.hx, hU, hch, P.hana, hsig.symm, hl, hv⟩
+  refine ⟨?_, ?_, ?_, s4, fun v hv => ⟨hright v hv, by rw [hsubs']; exact s5 v hv⟩⟩
+  all_goals
     by_cases hs : Stage.eval ∈ rq.stages
-    · have hU := U.find hW P.hfind
-      -- the root call is chained: all its arguments are known
-      obtain ⟨ev, io, sv, b, d, ret, a⟩ := analyse_inv (fuel := W.funs.length + 1) P.hana
-      obtain ⟨pa, hpa⟩ := buildReturnSig_argPairs a.hret
-      obtain ⟨kvs, hall⟩ := argPairs_allSome hpa rfl
-      have hch := root_chain U W hU hrq.1 hrq.2 P.hnamed hall P.hbind
-      have hsig : fis'.retSig = fis.retSig := by rw [P.hfis]; cases entryPathOf rq fn <;> rfl
-      have hsubs' : fis'.subs = fis.subs := by rw [P.hfis]; cases entryPathOf rq fn <;> rfl
-      obtain ⟨k1, k2⟩ := (pathsOK_iff paths fis').mp ((allStorePaths_ok fis' [] paths P.hpaths).2 paths (fun _ _ h => h))
-      rw [hsubs'] at k2
-      rw [hsig] at k1
-      -- the result and the store before the commit of the paths
-      have key : ∀ p, ∃ (res : Except XErr RVal) (st : XSt),
+    · -- the result and the store before the commit of the paths
+      have key : ∃ (res : Except XErr RVal) (st : XSt),
           (evalStep m W S rq).value = res.map some ∧
           ((evalStep m W S rq).store = st.store ∨ (evalStep m W S rq).store = st.store.sync paths) ∧
-          res = (plainFn W W.fuel p fn env).1 ∧ Sound U m x st.store := by
-        intro p
+          res = (plainFn W W.fuel { kept := K } fn env).1 ∧ Sound U m x st.store ∧ Extends S st.store := by
         simp only [evalStep, ha, hs, not_true_eq_false, if_false]
         rw [hsig]
         cases hb : sgGet S.blobs fis.retSig with
         | some v =>
-          refine ⟨.ok v, { store := S }, ?_, ?_, (served_right hS hW hx hU hch P.hana hb p).symm, hS⟩
+          refine ⟨.ok v, { store := S }, ?_, ?_, (served_right hS E.hW E.hx hU hch P.hana hb { kept := K } hl).symm, hS, Extends.refl _⟩
           · rfl
           · simp only; split <;> simp
         | none =>
           simp only
-          obtain ⟨s1, s2⟩ := sim_fn U m x W paths hW hx W.fuel fn ⟨named, none⟩ env refs0 [] fis r { store := S } p hU hch P.hana k2 hS
           cases hr : runFn W paths W.fuel { store := S } fn env with
           | mk rv st =>
-            rw [hr] at s1 s2
-            simp only at s1 s2
+            rw [hr] at s1 s2 s3
+            simp only at s1 s2 s3
             cases rv with
-            | error e => exact ⟨.error e, st, rfl, Or.inl rfl, s1, s2⟩
+            | error e => exact ⟨.error e, st, rfl, Or.inl rfl, s1, s2, s3⟩
             | ok v =>
               simp only
               cases hp : fis'.storePath with
               | none =>
-                refine ⟨.ok v, st, rfl, ?_, s1, s2⟩
+                refine ⟨.ok v, st, rfl, ?_, s1, s2, s3⟩
                 simp only; split <;> simp
               | some pth =>
                 simp only [k1 pth hp]
-                refine ⟨.ok v, { st with store := st.store.storeBlob fis.retSig v }, rfl, ?_, s1,
-                  Sound.storeBlob s2 hW hx hU hch P.hana s1.symm⟩
+                obtain ⟨t1, t2⟩ := Sound.storeBlob' s2 E.hW E.hx hU (hch.mono s3) P.hana
+                  (loadsOK_mono s3 fis hl) (p := { kept := K }) s1.symm
+                refine ⟨.ok v, { st with store := st.store.storeBlob fis.retSig v }, rfl, ?_, s1, t1, s3.trans t2⟩
                 simp only; split <;> simp
-      refine ⟨?_, ?_⟩
-      · obtain ⟨res, st, _, h2, _, h4⟩ := key { kept := [] }
-        rcases h2 with h2 | h2 <;> rw [h2]
-        · exact h4
-        · exact h4.sync paths
-      · intro fn' env' fis'' paths' heq _ p
-        simp only [Except.ok.injEq, Prod.mk.injEq] at heq
-        obtain ⟨rfl, rfl, _, _⟩ := heq
-        obtain ⟨res, st, h1, _, h3, _⟩ := key p
-        rw [h1, h3]
-    · refine ⟨?_, fun _ _ _ _ _ h => absurd h hs⟩
-      simp only [evalStep, ha, hs, not_false_eq_true, if_true]; exact hS
+      obtain ⟨res, st, h1, h2, h3, h4, h5⟩ := key
+      first
+        | (rcases h2 with h2 | h2 <;> rw [h2]
+           · exact h4
+           · exact h4.sync paths)
+        | (rcases h2 with h2 | h2 <;> rw [h2]
+           · exact h5
+           · intro k v hk; rw [sync_blobs]; exact h5 k v hk)
+        | (intro _; rw [h1, h3])
+    · first
+        | (simp only [evalStep, ha, hs, not_false_eq_true, if_true]; exact hS)
+        | (simp only [evalStep, ha, hs, not_false_eq_true, if_true]; exact Extends.refl _)
+        | (intro h; exact absurd h hs)
 
 /-! ## Histories -/
 
@@ -961,33 +1839,23 @@ structure HStep where
   rq : Request
 
 def HStep.ok (U : Universe) (x : Nat) (s : HStep) : Prop :=
-  U.world s.world ∧ s.world.extVersion = x ∧ U.request s.rq
+  EvalCtx U x s.world ∧ U.request s.rq
 
 /-- the store after a history (any sequence of versions of the code, requests, stage lists) -/
 def runHistory (m : Nat) : PStore → List HStep → PStore
   | S, [] => S
   | S, s :: ss => runHistory m (evalStep m s.world S s.rq).store ss
 
+/-- the store and the values kept by plain execution after a history -/
+def runHist (m : Nat) : HState → List HStep → HState
+  | h, [] => h
+  | h, s :: ss => runHist m (histStep m h s.world s.rq) ss
+
+theorem runHist_store (m : Nat) : ∀ (hist : List HStep) (h : HState), (runHist m h hist).store = runHistory m h.store hist
+  | [], _ => rfl
+  | s :: ss, h => by simp only [runHist, runHistory]; rw [runHist_store m ss]; rfl
+
 theorem sound_empty (U : Universe) (m x : Nat) (noop : Bool) : Sound U m x { noop := noop } := by
   intro k v h; simp [sgGet] at h
-
-theorem sound_history (U : Universe) (m x : Nat) : ∀ (hist : List HStep) (S : PStore), Sound U m x S →
-    (∀ s ∈ hist, s.ok U x) → Sound U m x (runHistory m S hist)
-  | [], _, hS, _ => hS
-  | s :: ss, S, hS, hok => by
-    obtain ⟨h1, h2, h3⟩ := hok s mem_cons_self
-    exact sound_history U m x ss _ (memo_correct U m x s.world S s.rq h1 h2 h3 hS).1
-      (fun t ht => hok t (mem_cons_of_mem _ ht))
-
-/-- **`history_correct` (C01).** After *any* history of evaluations — of older versions of the code, with other
-variable values and arguments, restricted to any stages, failed or not — starting from an empty store, an evaluation
-of the current version returns exactly what plain execution of the current version returns. -/
-theorem history_correct (U : Universe) (m x : Nat) (noop : Bool) (hist : List HStep) (hok : ∀ s ∈ hist, s.ok U x)
-    (W : World) (rq : Request) (hW : U.world W) (hx : W.extVersion = x) (hrq : U.request rq)
-    (fn : Fn) (env : Env) (fis : FIS) (paths : List (String × Sg))
-    (ha : analysisPhase m W (runHistory m { noop := noop } hist) rq = .ok (fn, env, fis, paths))
-    (hs : Stage.eval ∈ rq.stages) (p : PSt) :
-    (evalStep m W (runHistory m { noop := noop } hist) rq).value = ((plainFn W W.fuel p fn env).1).map some :=
-  (memo_correct U m x W _ rq hW hx hrq (sound_history U m x hist _ (sound_empty U m x noop) hok)).2 fn env fis paths ha hs p
 
 end Dds
